@@ -34,6 +34,7 @@ import unicodedata
 from typing import Any, Dict, List, Optional, Sequence, Tuple
 
 from engines import peglite as P
+from engines import pyconc as C
 from engines import pyfacts as pf
 from engines import relang as R
 from engines import scalalite as S
@@ -365,8 +366,24 @@ def _pipeline(ctx: Ctx, m: pf.Module, fn: pf.FuncDef, e: ast.AST, param: str) ->
     return list(reversed(ops))
 
 
+class _Cond(sp.Translator):
+    """strpred's translator plus `s.isidentifier()` (XID_Start|_ then XID_Continue*, tabulated from the running interpreter)."""
+
+    def cond(self, e: ast.AST) -> R.Lang:
+        if isinstance(e, ast.Call) and isinstance(e.func, ast.Attribute) and e.func.attr == 'isidentifier' and not e.args and not e.keywords \
+                and self._is_param(e.func.value):
+            start = R.tabulate('str.isidentifier.start', lambda c: c.isidentifier())
+            cont = R.tabulate('str.isidentifier.continue', lambda c: ('a' + c).isidentifier())
+            return R.lang(R.seq(R.chars(start), R.star(R.chars(cont))), 'str.isidentifier')
+        if isinstance(e, ast.Call) and pf.dotted(e.func) in ('keyword.iskeyword', 'iskeyword') and len(e.args) == 1 and self._is_param(e.args[0]):
+            import keyword
+            return R.lang(R.alt(*[R.lit(k) for k in keyword.kwlist]), 'keyword.iskeyword')
+        return super().cond(e)
+
+
 class Escaper:
-    """`if <regex>.fullmatch(s): return s  else: return D + f(s) + D`"""
+    """`if <test on s>: return s  else: return D + f(s) + D`  (either branch order; the test is a regex call or any combination of string
+    predicates engines/strpred can turn into a regular language)."""
 
     def __init__(self, ctx: Ctx, m: pf.Module, name: str):
         self.m = m
@@ -377,21 +394,37 @@ class Escaper:
         ctx.need(len(params) == 1, f'{m.rel}::{name}: expected one parameter')
         self.param = params[0]
         body = [s for s in fn.body if not (isinstance(s, ast.Expr) and isinstance(s.value, ast.Constant))]
-        ctx.need(body and isinstance(body[0], ast.If), f'{m.rel}::{name}: body does not start with `if <regex test>`')
+        ctx.need(body and isinstance(body[0], ast.If), f'{m.rel}::{name}: body does not start with `if <test on the name>`')
         iff = body[0]
         rest = body[1:]
-        rc = sp.regex_call(m, fn, iff.test)
-        ctx.need(rc is not None, f'{m.rel}::{name}: the test `{pf.nsrc(iff.test)}` is not a regex matching call')
-        self.rd, self.mode, subj = rc  # type: ignore[misc]
-        ctx.need(isinstance(subj, ast.Name) and subj.id == self.param, f'{m.rel}::{name}: regex not applied to the parameter')
-        ctx.need(len(iff.body) == 1 and isinstance(iff.body[0], ast.Return) and isinstance(iff.body[0].value, ast.Name)
-                 and iff.body[0].value.id == self.param, f'{m.rel}::{name}: the matching branch does not return the name unchanged')
-        other = iff.orelse if iff.orelse else rest
-        ctx.need(len(other) == 1 and isinstance(other[0], ast.Return) and other[0].value is not None, f'{m.rel}::{name}: unrecognised escaping branch')
-        self.escaped_expr = other[0].value
+        then = list(iff.body)
+        other = list(iff.orelse) if iff.orelse else rest
+        ctx.need(not (iff.orelse and rest), f'{m.rel}::{name}: statements after an if/else')
+
+        def is_bare(stmts: List[ast.stmt]) -> bool:
+            return len(stmts) == 1 and isinstance(stmts[0], ast.Return) and isinstance(stmts[0].value, ast.Name) and stmts[0].value.id == self.param
+        ctx.need(is_bare(then) != is_bare(other), f'{m.rel}::{name}: exactly one branch must return the name unchanged')
+        esc_branch = other if is_bare(then) else then
+        ctx.need(len(esc_branch) == 1 and isinstance(esc_branch[0], ast.Return) and esc_branch[0].value is not None, f'{m.rel}::{name}: unrecognised escaping branch')
+        self.escaped_expr = esc_branch[0].value
         self.test_line = iff.lineno
-        self.bare = R.from_regex(self.rd.pattern, self.rd.flags, self.mode)
-        self.bare.label = f'{name}: bare names {self.rd.pattern!r} ({self.mode})'
+        rc = None
+        try:
+            rc = sp.regex_call(m, fn, iff.test)
+        except AnalysisError:
+            rc = None
+        if rc is not None and isinstance(rc[2], ast.Name) and rc[2].id == self.param:
+            rd, mode, _subj = rc
+            lang = R.from_regex(rd.pattern, rd.flags, mode)
+            self.why = f'it matches {rd.pattern!r} under {mode}'
+        else:
+            lang = _Cond(m, fn, self.param).cond(iff.test)
+            self.why = f'it satisfies `{pf.nsrc(iff.test)}`'
+        if not is_bare(then):
+            lang = ~lang
+            self.why = f'it does not satisfy `{pf.nsrc(iff.test)}`'
+        self.bare = lang
+        self.bare.label = f'{name}: bare names ({self.why})'
 
 
 def _delimited(ctx: Ctx, m: pf.Module, fn: pf.FuncDef, e: ast.AST) -> Tuple[str, ast.AST]:
@@ -895,10 +928,1777 @@ def _visitor_class(ctx: Ctx, mg: pf.Module, mt: pf.Module, classes: Dict[str, as
     return out.pop() if len(out) == 1 else None
 
 
+
+# --------------------------------------------------------------------------------------
+# concrete evaluation of the printers, hl.dtype and the visitor on sample types (engines/pyconc.py)
+# --------------------------------------------------------------------------------------
+
+
+class _RG(C.ExtObj):
+    """Model of a registered ReferenceGenome: identified by its name; str(rg) == rg.name == the registered name."""
+    kind = 'ReferenceGenome'
+
+    def __init__(self, name: str):
+        self.name = name
+
+    def py_getattr(self, it, n):
+        if n == 'name':
+            return self.name
+        raise C.Unsupported(f'ReferenceGenome.{n} is not modelled')
+
+    def py_str(self, it):
+        return self.name
+
+    def py_eq(self, it, o):
+        return isinstance(o, _RG) and o.name == self.name
+
+
+class _PNodeV(C.ExtObj):
+    kind = 'parsimonious.Node'
+
+    def __init__(self, n: P.PNode):
+        self.n = n
+        self.kids: Optional[List['_PNodeV']] = None
+
+    def children(self) -> List['_PNodeV']:
+        if self.kids is None:
+            self.kids = [_PNodeV(c) for c in self.n.children]
+        return self.kids
+
+    def py_getattr(self, it, a):
+        if a == 'text':
+            return self.n.text
+        if a == 'expr_name':
+            return self.n.expr_name
+        if a == 'children':
+            return self.children()
+        if a in ('start', 'end', 'full_text'):
+            return getattr(self.n, a)
+        raise C.Unsupported(f'parsimonious Node.{a} is not modelled')
+
+    def py_iter(self, it):
+        return list(self.children())
+
+
+class _GrammarV(C.ExtObj):
+    kind = 'parsimonious.Grammar'
+    _parsed: Dict[str, P.Grammar] = {}
+
+    def __init__(self, text: Any):
+        if not isinstance(text, str):
+            raise C.Unsupported('Grammar(<non-string>)')
+        g = _GrammarV._parsed.get(text)
+        if g is None:
+            g = P.parse_grammar(text, 'Grammar(...)')
+            _GrammarV._parsed[text] = g
+        self.g = g
+
+    def py_getattr(self, it, a):
+        if a == 'parse':
+            def parse(it2, args, kw):
+                if len(args) != 1 or kw or not isinstance(args[0], str):
+                    raise C.Unsupported('Grammar.parse arguments')
+                try:
+                    return _PNodeV(P.parsimonious_tree(self.g, args[0]))
+                except P.ParseFailure as e:
+                    raise C.PyRaise('ParseError', (str(e),)) from None
+            return C.Builtin('Grammar.parse', parse)
+        raise C.Unsupported(f'parsimonious Grammar.{a} is not modelled')
+
+
+def _nv_visit(it, inst, args, kw):
+    """parsimonious NodeVisitor.visit: method visit_<expr_name> (else generic_visit) applied to (node, [visit(child) ...])."""
+    if len(args) != 1 or kw or not isinstance(args[0], _PNodeV):
+        raise C.Unsupported('NodeVisitor.visit arguments')
+    node = args[0]
+    try:
+        m = it.getattr(inst, 'visit_' + node.n.expr_name)
+    except C.PyRaise as r:
+        if r.name != 'AttributeError':
+            raise
+        m = it.getattr(inst, 'generic_visit')
+    return it.call(m, [node, [_nv_visit(it, inst, [c], {}) for c in node.children()]])
+
+
+def _nv_generic(it, inst, args, kw):
+    raise C.PyRaise('NotImplementedError', ('NodeVisitor.generic_visit',))
+
+
+class _HailNS(C.ExtObj):
+    """`import hail as hl`: names defined in hail/expr/types.py are re-exported by the package; the reference registry is modelled."""
+    kind = 'hail'
+
+    def py_getattr(self, it, a):
+        if a == 'default_reference':
+            return C.Builtin('default_reference', lambda it2, a2, k2: _RG('GRCh37'))
+        if a == 'get_reference':
+            return C.Builtin('get_reference', lambda it2, a2, k2: _co_rg(it2, a2[0]))
+        return it.global_lookup(it.module(F_TYPES), a)
+
+
+def _co_rg(it, v):
+    if isinstance(v, str):
+        return _RG('GRCh37' if v == 'default' else v)
+    return v
+
+
+def _co_hail_type(it, v):
+    if isinstance(v, str):
+        return it.call(it.global_lookup(it.module(F_TYPES), 'dtype'), [v])
+    return v
+
+
+class Session:
+    """One modelled Python process: module-level state of the interpreted modules (caches!) lives as long as the session."""
+
+    def __init__(self):
+        self.it = C.Interp(
+            externals={'parsimonious.Grammar': C.Builtin('Grammar', lambda it, a, k: _GrammarV(a[0] if a else None)), 'hail': _HailNS()},
+            package_roots={'hail': 'hail/python/hail', 'hailtop': 'hail/python/hailtop'},
+            coercers={'reference_genome_type': _co_rg, 'hail_type': _co_hail_type},
+            ext_class_methods={'parsimonious.NodeVisitor': {'visit': _nv_visit, 'generic_visit': _nv_generic, '__init__': lambda it, o, a, k: None}})
+
+    def expr(self, src: str, **variables: Any) -> Any:
+        return self.it.eval_src(F_TYPES, src, variables)
+
+    def dtype(self, s: str) -> Any:
+        return self.it.call(self.it.global_lookup(self.it.module(F_TYPES), 'dtype'), [s])
+
+    def try_dtype(self, s: str) -> Tuple[Any, Optional[str]]:
+        try:
+            return self.dtype(s), None
+        except C.PyRaise as r:
+            return None, f'{r.name}{r.pargs!r}'[:200]
+
+    def show(self, t: Any) -> str:
+        try:
+            return self.it.to_str(t) if isinstance(t, (C.Inst, C.ExtObj)) else repr(t)
+        except (C.PyRaise, AnalysisError):
+            return repr(t)
+
+
+_NAME_BATTERY = ['a', 'x_1', 'a b', 'a  b', ' a b', 'a b ', 'A b', 'ab', 'AB', 'a-b', 'a - b', '`', '\\', 'é', 'É', '1a', '', '\n', '\U0001f600', 'int32',
+                 'a:b', '}', "it's", 'tab\there', 'a.b', '"', 'struct', 'ﬁ', 'fi', 'a b']
+
+
+class Samples:
+    """Sample instances of every HailType class that has its own `__str__`, built through the interpreted constructors.  The
+    argument kinds of a constructor are read off its typecheck decorator."""
+
+    def __init__(self, ctx: Ctx, ses: Session, mt: pf.Module, classes: Dict[str, ast.ClassDef]):
+        self.ses = ses
+        self.by_class: Dict[str, List[Tuple[str, Any]]] = {}
+        self.skipped: List[str] = []
+        it = ses.it
+        pool_src = ['tint32', 'tstr', 'tarray(tfloat64)', "tstruct(**{'a b': tbool})", 'tint64']
+        try:
+            pool = [(src, ses.expr(src)) for src in pool_src]
+        except C.PyRaise as r:
+            raise AnalysisError(f'{F_TYPES}: cannot build the sample children {pool_src}: {r}') from None
+        rgs = [(repr(n), _RG(n)) for n in ('GRCh38', 'my genome', '1kg`x', 'é', 'GRCh37', ' padded ', 'grch38')]
+        nats = [('2', 2), ('0', 0), ('11', 11)]
+        for cname, c in classes.items():
+            if _method(c, '__str__') is None:
+                continue
+            init = None
+            for k in self._chain(classes, c):
+                init = _method(k, '__init__')
+                if init is not None:
+                    break
+            kinds = self._kinds(init)
+            if kinds is None:
+                self.skipped.append(cname)
+                continue
+            cref = it.global_lookup(it.module(F_TYPES), cname)
+            combos: List[Tuple[str, list, dict]] = []
+            if not kinds:
+                combos.append(('', [], {}))
+            elif kinds == ['TYPES']:
+                for sel in ([], [0], [1, 0, 2], [0, 0], [3, 4]):
+                    combos.append((', '.join(pool[i][0] for i in sel), [pool[i][1] for i in sel], {}))
+            elif kinds == ['FIELDS']:
+                combos.append(('', [], {}))
+                for i, n in enumerate(_NAME_BATTERY):
+                    combos.append((f'**{{{n!r}: {pool[0][0]}}}', [], {n: pool[0][1]}))
+                multi = [['b', 'a', 'c c'], ['z', 'A', 'a', '`'], ['x', 'a b', 'a  b']]
+                for names in multi:
+                    combos.append(('**{' + ', '.join(f'{n!r}: {pool[j % len(pool)][0]}' for j, n in enumerate(names)) + '}', [],
+                                   {n: pool[j % len(pool)][1] for j, n in enumerate(names)}))
+                long_fields = {f'f{j}': pool[j % 2][1] for j in range(24)}
+                combos.append(('**{f0..f23, last: tint32}', [], {**long_fields, 'last': pool[0][1]}))
+                combos.append(('**{f0..f23, last: tstr}', [], {**long_fields, 'last': pool[1][1]}))
+            else:
+                per: List[List[Tuple[str, Any]]] = []
+                ti = 0
+                for kd in kinds:
+                    if kd == 'TYPE':
+                        per.append([pool[(ti + j) % len(pool)] for j in (0, 2, 1, 3)])
+                        ti += 1
+                    elif kd == 'RG':
+                        per.append(rgs)
+                    elif kd == 'NAT':
+                        per.append(nats)
+                    else:
+                        per = []
+                        break
+                if not per:
+                    self.skipped.append(cname)
+                    continue
+                n = max(len(x) for x in per)
+                for i in range(n):
+                    pick = [x[i % len(x)] for x in per]
+                    combos.append((', '.join(p[0] for p in pick), [p[1] for p in pick], {}))
+            out = []
+            for desc, args, kwargs in combos:
+                try:
+                    out.append((f'{cname}({desc})', it.call(cref, list(args), dict(kwargs))))
+                except C.PyRaise as r:
+                    raise AnalysisError(f'{F_TYPES}: the sample {cname}({desc}) cannot be constructed: {r}') from None
+            self.by_class[cname] = out
+        # nested positions: the most demanding samples once more inside containers
+        nest = []
+        for cname in ('tstruct', 'tlocus', 'ttuple'):
+            for desc, t in self.by_class.get(cname, [])[:(14 if cname == 'tstruct' else 4)]:
+                nest.append((desc, t))
+        self.nested: List[Tuple[str, Any]] = []
+        for i, (desc, t) in enumerate(nest):
+            wrap = ('tarray(T)', 'tdict(tstr, T)', 'ttuple(tint32, T)', "tstruct(**{'k': tint32, 'v v': T})")[i % 4]
+            try:
+                self.nested.append((wrap.replace('T', desc), ses.expr(wrap, T=t)))
+            except C.PyRaise as r:
+                raise AnalysisError(f'{F_TYPES}: the sample {wrap} cannot be constructed: {r}') from None
+
+    @staticmethod
+    def _chain(classes: Dict[str, ast.ClassDef], c: ast.ClassDef) -> List[ast.ClassDef]:
+        out = [c]
+        for b in c.bases:
+            d = pf.dotted(b)
+            if d in classes:
+                out += Samples._chain(classes, classes[d])
+        return out
+
+    @staticmethod
+    def _kinds(init: Optional[ast.FunctionDef]) -> Optional[List[str]]:
+        if init is None:
+            return []
+        a = init.args
+        params = [x.arg for x in a.posonlyargs + a.args]
+        chk: Dict[str, str] = {}
+        for d in init.decorator_list:
+            if isinstance(d, ast.Call) and (pf.dotted(d.func) or '').split('.')[-1] in ('typecheck_method', 'typecheck'):
+                for k in d.keywords:
+                    if k.arg:
+                        chk[k.arg] = pf.nsrc(k.value)
+
+        def kind(src: Optional[str]) -> Optional[str]:
+            if src == 'hail_type':
+                return 'TYPE'
+            if src in ('reference_genome_type', 'nullable(reference_genome_type)'):
+                return 'RG'
+            if src in ('oneof(NatBase, int)', 'oneof(int, NatBase)', 'int'):
+                return 'NAT'
+            return None
+        if a.kwonlyargs:
+            return None
+        if a.vararg is not None and a.kwarg is not None and not params and chk.get(a.kwarg.arg) == 'hail_type':
+            return ['FIELDS']  # tstruct: __init__(*args, **field_types) with self = args[0]
+        if a.kwarg is not None:
+            if params == ['self'] and a.vararg is None and chk.get(a.kwarg.arg) == 'hail_type':
+                return ['FIELDS']
+            return None
+        if a.vararg is not None:
+            if params == ['self'] and chk.get(a.vararg.arg) == 'hail_type':
+                return ['TYPES']
+            return None
+        out = []
+        for p_ in params[1:]:
+            k = kind(chk.get(p_))
+            if k is None:
+                return None
+            out.append(k)
+        return out
+
+    def all(self) -> List[Tuple[str, str, Any]]:
+        out = [(cname, desc, t) for cname, lst in self.by_class.items() for desc, t in lst]
+        out += [('nested', desc, t) for desc, t in self.nested]
+        return out
+
+
+def struct_equal(it: C.Interp, a: Any, b: Any, depth: int = 0) -> bool:
+    """Attribute-wise equality of two interpreted objects (stronger than any `_eq`); caches (`_context`) are ignored."""
+    if depth > 12:
+        return False
+    if isinstance(a, C.Inst) and isinstance(b, C.Inst):
+        if a.cls is not b.cls and (a.cls.mod.rel, a.cls.name) != (b.cls.mod.rel, b.cls.name):
+            return False
+        ka = {k for k in a.attrs if k not in ('_context',)}
+        kb = {k for k in b.attrs if k not in ('_context',)}
+        return ka == kb and all(struct_equal(it, a.attrs[k], b.attrs[k], depth + 1) for k in ka)
+    if isinstance(a, C.ExtObj) or isinstance(b, C.ExtObj):
+        return isinstance(a, C.ExtObj) and a.py_eq(it, b)
+    if isinstance(a, (list, tuple)) and type(a) is type(b):
+        return len(a) == len(b) and all(struct_equal(it, x, y, depth + 1) for x, y in zip(a, b))
+    if isinstance(a, dict) and isinstance(b, dict):
+        return list(a.keys()) == list(b.keys()) and all(struct_equal(it, a[k], b[k], depth + 1) for k in a)
+    if isinstance(a, (C.Inst, list, tuple, dict)) or isinstance(b, (C.Inst, list, tuple, dict)):
+        return False
+    try:
+        return type(a) is type(b) and a == b
+    except Exception:  # noqa: BLE001
+        return a is b
+
+
+def types_equal(ses: Session, t: Any, t2: Any) -> bool:
+    """`t == t2` as the repository defines it (interpreted HailType.__eq__ / _eq); attribute-wise equality when `_eq` is outside the
+    evaluator's subset."""
+    try:
+        return bool(ses.it.py_eq(t, t2))
+    except C.Unsupported:
+        if struct_equal(ses.it, t, t2):
+            return True
+        raise
+
+
+def _same_as(ses_a: Session, ses_b: Session, ta: Any, tb: Any) -> bool:
+    """Cross-process comparison: an object of process a against an object of process b (classes are compared by name)."""
+    return struct_equal(ses_a.it, ta, tb)
+
+
+PRINTERS = (('__str__', 'str(t)', 'str(t)'), ('pretty', 't.pretty()', 't.pretty()'))
+
+
+def check_round_trip(ctx: Ctx, mt: pf.Module, classes: Dict[str, ast.ClassDef], ses: Session, sm: Samples) -> None:
+    """R8: for every sample type t and every printer, dtype(<printed t>) == t, evaluated with our interpreter on the printers, dtype,
+    the grammar text (peglite) and the visitor; once in sample order and once in reverse order in a second modelled process."""
+    for cname in sm.skipped:
+        ctx.info(f'{cname}: constructor arguments are not described by a typecheck decorator we can sample; print/parse round trip of {cname} not evaluated')
+    allsamples = sm.all()
+    ctx.unit('sample_types', len(allsamples))
+    printed: List[Tuple[str, str, str, Any, str, str]] = []  # (cname, printer, desc, t, text, how)
+    for cname, desc, t in allsamples:
+        for pname, src, how in PRINTERS:
+            try:
+                text = ses.expr(src, t=t)
+            except C.PyRaise as r:
+                ctx.bad('R8', f'{F_TYPES}::{cname}.{pname}::prints', f'{how} raises {r.name}{r.pargs!r} for t = {desc}', mt.path,
+                        classes[cname].lineno if cname in classes else 0)
+                continue
+            if not isinstance(text, str):
+                raise AnalysisError(f'{F_TYPES}::{cname}.{pname}: printed form of {desc} is not a string')
+            printed.append((cname, pname, desc, t, text, how))
+    failures: Dict[Tuple[str, str], str] = {}
+    counts: Dict[Tuple[str, str], int] = {}
+    bad_a = set()
+    res_a: Dict[int, Any] = {}
+    for i, (cname, pname, desc, t, text, how) in enumerate(printed):
+        key = (cname, pname)
+        counts[key] = counts.get(key, 0) + 1
+        t2, err = ses.try_dtype(text)
+        ok = err is None and types_equal(ses, t, t2)
+        res_a[i] = t2
+        if not ok:
+            bad_a.add(i)
+            if key not in failures:
+                # the same string alone, in a fresh modelled process
+                fresh = Session()
+                f2, ferr = fresh.try_dtype(text)
+                alone_ok = ferr is None and _same_as(ses, fresh, t, f2)
+                got = f'raises {err}' if err is not None else f'returns {ascii(ses.show(t2))}'
+                if alone_ok:
+                    failures[key] = (f'for t = {desc}, {how} = {ascii(text)} and hl.dtype of it {got} when the earlier sample strings have been parsed in the same '
+                                     f'process, although it returns t when parsed first: the result of dtype depends on the history of earlier calls')
+                else:
+                    failures[key] = f'for t = {desc}, {how} = {ascii(text)} and hl.dtype of it {got}, which is not equal to t'
+    # second modelled process, reverse order: results must not depend on what was parsed before
+    ses_b = Session()
+    for i in range(len(printed) - 1, -1, -1):
+        cname, pname, desc, t, text, how = printed[i]
+        if i in bad_a:
+            continue
+        t2, err = ses_b.try_dtype(text)
+        ok = err is None and struct_equal(ses_b.it, res_a[i], t2)
+        if not ok and (cname, pname) not in failures:
+            got = f'raises {err}' if err is not None else f'returns {ascii(ses_b.show(t2))}'
+            failures[(cname, pname)] = (f'for t = {desc}, {how} = {ascii(text)}; hl.dtype of it returns t when the samples are parsed in one order, but {got} '
+                                        f'when they are parsed in the reverse order in a fresh process: the result of dtype depends on the history of earlier calls')
+    for key, n in counts.items():
+        cname, pname = key
+        cons = f'{F_TYPES}::{cname}.{pname}::dtype({"str(t)" if pname == "__str__" else "t.pretty()"}) == t'
+        line = classes[cname].lineno if cname in classes else 0
+        ctx.check(key not in failures, 'R8', cons, failures.get(key, ''), mt.path, line, detail={'samples': n})
+    ctx.unit('round_trips_evaluated', 2 * len(printed))
+
+
+
+# --------------------------------------------------------------------------------------
+# R7: what hl.dtype returns is a function of the parse of ITS OWN argument (abstract data flow over dtype and its helpers)
+# --------------------------------------------------------------------------------------
+
+ARG = '__ARG__'
+_PURE_STR_METHODS = C._STR_METHODS - {'format_map'}
+_PURE_FUNCS = {'str', 'tuple', 'list', 'sorted', 'reversed', 'len', 'repr', 'ascii', 'bytes', 'frozenset', 'sys.intern', 'intern', 're.sub', 're.split',
+               're.escape', 'unicodedata.normalize', 'map', 'filter'}
+_CONTAINER_CTORS = {'dict', 'OrderedDict', 'defaultdict', 'WeakValueDictionary', 'collections.OrderedDict', 'collections.defaultdict',
+                    'weakref.WeakValueDictionary', 'list', 'set', 'LRUCache', 'TTLCache', 'cachetools.LRUCache', 'cachetools.TTLCache'}
+_CACHE_DECORATORS = {'lru_cache', 'cache', 'functools.lru_cache', 'functools.cache'}
+_NEUTRAL_DECORATORS = {'typecheck', 'typecheck_method', 'staticmethod', 'functools.wraps', 'wraps'}
+
+
+class Flow:
+    """Flow-insensitive, inter-procedural abstract evaluation.  Abstract values:
+         ('arg', T, rel)      a pure function T (expression over the name __ARG__, evaluated in module rel) of the root argument
+         ('const', v)         a constant
+         ('tree', T, rel)     <grammar>.parse(T(arg))
+         ('parsed', T, rel)   <visitor>.visit(<grammar>.parse(T(arg)))
+         ('memo', C, K, rel)  a read of the container C at the key K(arg)
+         ('grammar',) ('visitor', cls) ('container', C) ('func', rel, def) ('pure', dotted) ('unknown', why)"""
+
+    def __init__(self, ctx: Ctx):
+        self.ctx = ctx
+        self.writes: List[dict] = []
+        self.decorated: List[str] = []
+        self.visitors: List[Tuple[str, ast.ClassDef]] = []
+        self.functions: List[Tuple[str, str]] = []
+        self.steps = 0
+
+    # ---- module level
+    def resolve_global(self, m: pf.Module, name: str, depth: int = 0) -> tuple:
+        if depth > 5:
+            return ('unknown', f'import chain of {name} too deep')
+        bindings: List[Any] = []
+        for st in m.tree.body:
+            if isinstance(st, (ast.FunctionDef, ast.AsyncFunctionDef, ast.ClassDef)) and st.name == name:
+                bindings.append(st)
+            elif isinstance(st, ast.Assign) and any(isinstance(x, ast.Name) and x.id == name for t in st.targets for x in ast.walk(t)):
+                bindings.append(st.value if all(isinstance(t, ast.Name) for t in st.targets) else st)
+            elif isinstance(st, ast.AnnAssign) and isinstance(st.target, ast.Name) and st.target.id == name and st.value is not None:
+                bindings.append(st.value)
+            elif isinstance(st, ast.AugAssign) and isinstance(st.target, ast.Name) and st.target.id == name:
+                bindings.append(st)
+            elif isinstance(st, (ast.Import, ast.ImportFrom)):
+                for a in st.names:
+                    if (a.asname or a.name.split('.')[0]) == name:
+                        bindings.append((st, a))
+            elif isinstance(st, (ast.If, ast.Try, ast.For, ast.While, ast.With)):
+                if any(isinstance(x, ast.Name) and x.id == name and isinstance(x.ctx, ast.Store) for x in ast.walk(st)) or \
+                        any(isinstance(x, (ast.FunctionDef, ast.ClassDef)) and x.name == name for x in ast.walk(st)):
+                    bindings.append(st)
+        for n in ast.walk(m.tree):
+            if isinstance(n, ast.Global) and name in n.names:
+                return ('state', f'{m.rel}::{name}', 'rebound through `global`')
+        if not bindings:
+            if name in C.BUILTINS or name in C._NATIVE_TYPES:
+                return ('pure', name)
+            return ('unknown', f'{m.rel}: name {name} is not bound at module level')
+        if len(bindings) != 1:
+            return ('unknown', f'{m.rel}: {name} is bound {len(bindings)} times at module level')
+        b = bindings[0]
+        if isinstance(b, ast.FunctionDef):
+            return ('func', m, b)
+        if isinstance(b, ast.ClassDef):
+            return ('class', m, b)
+        if isinstance(b, tuple):
+            st, a = b
+            if isinstance(st, ast.Import):
+                return ('pure', a.name if a.asname else a.name.split('.')[0])
+            tgt = self._import_target(m, st)
+            if tgt is None:
+                return ('pure', f'{st.module}.{a.name}')
+            return self.resolve_global(tgt, a.name, depth + 1)
+        if not isinstance(b, ast.expr):
+            return ('unknown', f'{m.rel}: binding of {name} is not a plain assignment')
+        if isinstance(b, ast.Constant):
+            return ('const', b.value)
+        if isinstance(b, (ast.Dict, ast.List, ast.Set, ast.DictComp, ast.ListComp, ast.SetComp)):
+            return ('container', f'{m.rel}::{name}', b, m)
+        if isinstance(b, ast.Name):
+            return self.resolve_global(m, b.id, depth + 1)
+        if isinstance(b, ast.Call):
+            head = pf.dotted(b.func)
+            if head is not None:
+                h = self.resolve_global(m, head.split('.')[0], depth + 1) if '.' not in head else ('pure', head)
+                if h[0] == 'pure' and h[1].split('.')[-1] == 'Grammar' and 'parsimonious' in h[1]:
+                    return ('grammar', m, b)
+                if h[0] == 'class':
+                    km, kn = h[1], h[2]
+                    if self._is_visitor_class(km, kn):
+                        if b.args or b.keywords:
+                            return ('unknown', f'{m.rel}: visitor {name} is constructed with arguments')
+                        return ('visitor', km, kn)
+                    return ('unknown', f'{m.rel}: {name} is an instance of {kn.name}')
+                if h[0] == 'pure' and (h[1].startswith('re.') or h[1] in ('re.compile',)) or head in ('re.compile',):
+                    return ('pure', f'{m.rel}::{name}')
+                if head.split('.')[-1] in {c.split('.')[-1] for c in _CONTAINER_CTORS}:
+                    return ('container', f'{m.rel}::{name}', b, m)
+            return ('unknown', f'{m.rel}: {name} = {pf.nsrc(b)[:60]} is not recognised')
+        return ('unknown', f'{m.rel}: {name} = {pf.nsrc(b)[:60]} is not recognised')
+
+    def _is_visitor_class(self, m: pf.Module, c: ast.ClassDef) -> bool:
+        for b in c.bases:
+            d = pf.dotted(b)
+            if d is None:
+                continue
+            r = self.resolve_global(m, d.split('.')[0])
+            if r[0] == 'pure' and r[1].split('.')[-1] == 'NodeVisitor':
+                return True
+            if r[0] == 'class' and self._is_visitor_class(r[1], r[2]):
+                return True
+        return False
+
+    @staticmethod
+    def _import_target(m: pf.Module, st: ast.ImportFrom) -> Optional[pf.Module]:
+        if st.level > 0:
+            base = os.path.dirname(m.rel)
+            for _ in range(st.level - 1):
+                base = os.path.dirname(base)
+            parts = [p_ for p_ in (st.module or '').split('.') if p_]
+            stem = os.path.join(base, *parts) if parts else base
+            cands = [stem + '.py', os.path.join(stem, '__init__.py')]
+        else:
+            mod = st.module or ''
+            roots = {'hail': 'hail/python/hail', 'hailtop': 'hail/python/hailtop'}
+            head = mod.split('.')[0]
+            if head not in roots:
+                return None
+            stem = roots[head] + ('/' + '/'.join(mod.split('.')[1:]) if '.' in mod else '')
+            cands = [stem + '.py', stem + '/__init__.py']
+        for cnd in cands:
+            try:
+                return pf.load(cnd)
+            except AnalysisError:
+                continue
+        return None
+
+    # ---- expressions
+    def ev(self, e: ast.AST, fx: dict) -> List[tuple]:
+        self.steps += 1
+        if self.steps > 20000:
+            return [('unknown', 'abstract evaluation budget')]
+        m: pf.Module = fx['m']
+        if isinstance(e, ast.Constant):
+            return [('const', e.value)]
+        if isinstance(e, ast.Name):
+            return self._name(e.id, fx)
+        if isinstance(e, ast.NamedExpr):
+            return self.ev(e.value, fx)
+        if isinstance(e, ast.IfExp):
+            return self.ev(e.body, fx) + self.ev(e.orelse, fx)
+        if isinstance(e, ast.BoolOp):
+            out: List[tuple] = []
+            for v in e.values:
+                out += self.ev(v, fx)
+            return out
+        if isinstance(e, ast.Attribute):
+            base = self.ev(e.value, fx)
+            out = []
+            for b in base:
+                if b[0] == 'func':
+                    out.append(('container', f'{b[1].rel}::{b[2].name}.{e.attr}', None, b[1]))
+                elif b[0] == 'pure':
+                    out.append(('pure', f'{b[1]}.{e.attr}'))
+                elif b[0] == 'self':
+                    out.append(('container', f'{b[1]}.{e.attr}', None, m))
+                else:
+                    out.append(('unknown', f'attribute `{pf.nsrc(e)[:50]}`'))
+            return out
+        if isinstance(e, ast.Subscript):
+            base = self.ev(e.value, fx)
+            out = []
+            for b in base:
+                if b[0] == 'container':
+                    for k in self.ev(e.slice, fx):
+                        out.append(self._memo(b[1], k, e))
+                elif b[0] in ('arg', 'const'):
+                    out += self._compose(e, fx)
+                else:
+                    out.append(('unknown', f'subscript `{pf.nsrc(e)[:50]}`'))
+            return out
+        if isinstance(e, ast.Call):
+            return self._call(e, fx)
+        if isinstance(e, (ast.Tuple, ast.List, ast.JoinedStr, ast.BinOp, ast.FormattedValue, ast.ListComp, ast.GeneratorExp, ast.Compare, ast.UnaryOp)):
+            return self._compose(e, fx)
+        return [('unknown', f'expression `{pf.nsrc(e)[:60]}`')]
+
+    def _memo(self, cid: str, k: tuple, e: ast.AST) -> tuple:
+        if k[0] == 'arg':
+            return ('memo', cid, k[1], k[2])
+        if k[0] == 'const':
+            return ('memo', cid, ast.Constant(value=k[1]), None)
+        return ('unknown', f'key of `{pf.nsrc(e)[:50]}` is not a pure function of the argument ({k[0]}: {k[1] if len(k) > 1 else ""})')
+
+    def _name(self, name: str, fx: dict) -> List[tuple]:
+        env = fx['env']
+        if name in env:
+            return list(env[name])
+        fn = fx['fn']
+        if name in fx['busy']:
+            return []
+        defs = fx['defs'].get(name)
+        if defs is not None:
+            out: List[tuple] = []
+            fx['busy'].add(name)
+            try:
+                for d in defs:
+                    if isinstance(d, ast.expr):
+                        out += self.ev(d, fx)
+                    elif isinstance(d, ast.AugAssign):
+                        out.append(('unknown', f'{name} is updated in place'))
+                    elif isinstance(d, ast.arg):
+                        out.append(('unknown', f'parameter {name} is not bound'))
+                    elif isinstance(d, ast.ExceptHandler):
+                        out.append(('const', None))
+                    else:
+                        out.append(('unknown', f'{name} is bound by `{pf.nsrc(d)[:50]}`'))
+            finally:
+                fx['busy'].discard(name)
+            return out
+        for n in pf.walk_shallow(fn):
+            if isinstance(n, ast.Global) and name in n.names:
+                return [('unknown', f'`global {name}` in {fn.name}: a scalar memo is not modelled')]
+            if isinstance(n, ast.ImportFrom) and any((a.asname or a.name) == name for a in n.names):
+                a0 = [a for a in n.names if (a.asname or a.name) == name][0]
+                tgt = self._import_target(fx['m'], n)
+                return [self.resolve_global(tgt, a0.name) if tgt is not None else ('pure', f'{n.module}.{a0.name}')]
+            if isinstance(n, ast.Import) and any((a.asname or a.name.split('.')[0]) == name for a in n.names):
+                a0 = [a for a in n.names if (a.asname or a.name.split('.')[0]) == name][0]
+                return [('pure', a0.name if a0.asname else a0.name.split('.')[0])]
+        r = self.resolve_global(fx['m'], name)
+        if r[0] == 'state':
+            return [('unknown', f'{r[1]} is module state {r[2]}; a scalar memo is not modelled')]
+        return [r]
+
+    def _compose(self, e: ast.AST, fx: dict) -> List[tuple]:
+        """A pure expression over already-abstract parts: substitute and keep it as one T."""
+        import copy
+        holes: List[Tuple[ast.AST, List[tuple]]] = []
+
+        class _Sub(ast.NodeTransformer):
+            def __init__(s2, choice: Dict[int, ast.AST]):
+                s2.choice = choice
+
+            def generic_visit(s2, node):
+                if id(node) in s2.choice:
+                    return copy.deepcopy(s2.choice[id(node)])
+                return super().generic_visit(node)
+
+        # leaves that need resolution: Names (not bound by a comprehension inside e) and calls of repository functions
+        bound = {x.id for g in ast.walk(e) if isinstance(g, ast.comprehension) for x in ast.walk(g.target) if isinstance(x, ast.Name)}
+        bound |= {a.arg for l_ in ast.walk(e) if isinstance(l_, ast.Lambda) for a in l_.args.args}
+        problems: List[tuple] = []
+        rels = set()
+        for n in ast.walk(e):
+            if isinstance(n, ast.Name) and isinstance(n.ctx, ast.Load) and n.id not in bound:
+                vals = self._name(n.id, fx)
+                holes.append((n, vals))
+            elif isinstance(n, (ast.Await, ast.Yield, ast.YieldFrom, ast.Starred)):
+                problems.append(('unknown', f'`{pf.nsrc(e)[:50]}`'))
+        combos: List[Dict[int, ast.AST]] = [{}]
+        for n, vals in holes:
+            alts: List[Optional[ast.AST]] = []
+            for v in vals:
+                if v[0] == 'arg':
+                    alts.append(v[1])
+                    if v[2] is not None:
+                        rels.add(v[2])
+                elif v[0] == 'const':
+                    if v[1] is None or isinstance(v[1], (str, int, bool, bytes, float)):
+                        alts.append(ast.Constant(value=v[1]))
+                    else:
+                        problems.append(('unknown', f'constant in `{pf.nsrc(e)[:50]}`'))
+                elif v[0] == 'pure':
+                    alts.append(None)  # keep the name: resolved in its module when T is evaluated
+                    rels.add(fx['m'].rel)
+                else:
+                    problems.append(v if v[0] == 'unknown' else ('unknown', f'`{pf.nsrc(n)}` in `{pf.nsrc(e)[:50]}` is a {v[0]}'))
+            if not alts:
+                problems.append(('unknown', f'`{pf.nsrc(n)}` has no value'))
+                continue
+            nxt = []
+            for cmb in combos:
+                for a in alts:
+                    c2 = dict(cmb)
+                    if a is not None:
+                        c2[id(n)] = a
+                    nxt.append(c2)
+            combos = nxt[:8]
+        if problems:
+            return problems[:1]
+        # method calls must be pure str methods / pure functions
+        for n in ast.walk(e):
+            if isinstance(n, ast.Call):
+                d = pf.dotted(n.func)
+                ok = False
+                if isinstance(n.func, ast.Attribute) and n.func.attr in _PURE_STR_METHODS | {'sub', 'split', 'subn', 'fullmatch', 'match', 'search', 'group', 'decode', 'items', 'keys', 'values'}:
+                    ok = True
+                if d is not None:
+                    r = self.resolve_global(fx['m'], d.split('.')[0]) if d.split('.')[0] not in bound and d.split('.')[0] not in fx['env'] and d.split('.')[0] not in fx['defs'] else ('local',)
+                    full = (r[1] + d[len(d.split('.')[0]):]) if r[0] == 'pure' else d
+                    if full in _PURE_FUNCS or (r[0] == 'pure' and full.split('.')[-1] in {p_.split('.')[-1] for p_ in _PURE_FUNCS} and full.split('.')[0] in ('re', 'sys', 'unicodedata', 'str', 'tuple', 'list', 'sorted', 'len', 'repr', 'bytes', 'map', 'filter', 'reversed', 'ascii', 'frozenset')):
+                        ok = True
+                    if full in ('hash', 'id') or full.endswith('.hash'):
+                        return [('unknown', f'`{pf.nsrc(n)[:50]}`: hash()/id() are not functions of the text alone (randomised / collisions)')]
+                if not ok:
+                    return [('unknown', f'`{pf.nsrc(n)[:60]}` is not a recognised pure string operation')]
+        if len(rels) > 1:
+            return [('unknown', f'`{pf.nsrc(e)[:50]}` mixes names of several modules')]
+        rel = next(iter(rels)) if rels else fx['m'].rel
+        out = []
+        for cmb in combos:
+            t = _Sub(cmb).visit(copy.deepcopy(e)) if not cmb else None
+            if cmb:
+                # substitution must address the ORIGINAL nodes: rebuild by walking in parallel
+                t = self._subst(e, cmb)
+            names = {x.id for x in ast.walk(t) if isinstance(x, ast.Name)}
+            if ARG in names:
+                out.append(('arg', t, rel))
+            else:
+                out.append(('arg', t, rel) if names - bound else ('constexpr', t, rel))
+        res = []
+        for v in out:
+            if v[0] == 'constexpr':
+                try:
+                    res.append(('const', ast.literal_eval(v[1])))
+                except (ValueError, SyntaxError, TypeError):
+                    res.append(('arg', v[1], v[2]))
+            else:
+                res.append(v)
+        return res
+
+    @staticmethod
+    def _subst(e: ast.AST, choice: Dict[int, ast.AST]) -> ast.AST:
+        import copy
+
+        def rec(n: ast.AST) -> ast.AST:
+            if id(n) in choice:
+                return copy.deepcopy(choice[id(n)])
+            new = copy.copy(n)
+            for f, v in ast.iter_fields(n):
+                if isinstance(v, list):
+                    setattr(new, f, [rec(x) if isinstance(x, ast.AST) else x for x in v])
+                elif isinstance(v, ast.AST):
+                    setattr(new, f, rec(v))
+            return new
+        return ast.fix_missing_locations(rec(e))
+
+    def _call(self, e: ast.Call, fx: dict) -> List[tuple]:
+        f = e.func
+        out: List[tuple] = []
+        if isinstance(f, ast.Attribute):
+            recv = self.ev(f.value, fx)
+            handled = False
+            for r in recv:
+                if r[0] == 'grammar' and f.attr == 'parse':
+                    handled = True
+                    if len(e.args) != 1 or e.keywords:
+                        out.append(('unknown', f'`{pf.nsrc(e)[:60]}`'))
+                        continue
+                    for a in self.ev(e.args[0], fx):
+                        out.append(('tree', a[1], a[2]) if a[0] == 'arg' else ('unknown', f'`{pf.nsrc(e)[:60]}` parses something that is not a function of the argument'
+                                                                                  + (f' ({a[1]})' if a[0] == 'unknown' else '')))
+                elif r[0] == 'visitor' and f.attr == 'visit':
+                    handled = True
+                    if (r[1].rel, r[2]) not in [(x[0], x[1]) for x in self.visitors]:
+                        self.visitors.append((r[1].rel, r[2]))
+                    if len(e.args) != 1 or e.keywords:
+                        out.append(('unknown', f'`{pf.nsrc(e)[:60]}`'))
+                        continue
+                    for a in self.ev(e.args[0], fx):
+                        out.append(('parsed', a[1], a[2]) if a[0] == 'tree' else a if a[0] == 'unknown' else ('unknown', f'`{pf.nsrc(e)[:60]}` visits something that is not a parse tree'))
+                elif r[0] == 'container':
+                    handled = True
+                    cid = r[1]
+                    if f.attr in ('get', 'pop', '__getitem__') and 1 <= len(e.args) <= 2 and not e.keywords:
+                        for k in self.ev(e.args[0], fx):
+                            out.append(self._memo(cid, k, e))
+                        if len(e.args) == 2:
+                            out += [v for v in self.ev(e.args[1], fx) if v != ('const', None)]
+                    elif f.attr == 'setdefault' and len(e.args) == 2 and not e.keywords:
+                        ks = self.ev(e.args[0], fx)
+                        vs = self.ev(e.args[1], fx)
+                        self.writes.append({'C': cid, 'K': ks, 'V': vs, 'm': fx['m'], 'fn': fx['fn'], 'node': e})
+                        for k in ks:
+                            out.append(self._memo(cid, k, e))
+                        out += vs
+                    elif f.attr in ('clear', 'cache_clear'):
+                        out.append(('const', None))
+                    else:
+                        out.append(('unknown', f'`{pf.nsrc(e)[:60]}` on the container {cid}'))
+            if handled:
+                return out
+            if any(r[0] == 'unknown' for r in recv) and not any(r[0] in ('arg', 'const', 'pure') for r in recv):
+                return [r for r in recv if r[0] == 'unknown'][:1]
+            return self._compose(e, fx)
+        d = pf.dotted(f)
+        if isinstance(f, ast.Name):
+            targets = self._name(f.id, fx)
+            outs: List[tuple] = []
+            for t in targets:
+                if t[0] == 'func':
+                    outs += self.call_function(t[1], t[2], e, fx)
+                elif t[0] == 'pure':
+                    outs += self._compose(e, fx)
+                elif t[0] == 'class':
+                    outs.append(('unknown', f'`{pf.nsrc(e)[:60]}` constructs a {t[2].name}'))
+                else:
+                    outs.append(t if t[0] == 'unknown' else ('unknown', f'call of `{d}` ({t[0]})'))
+            return outs
+        return [('unknown', f'call `{pf.nsrc(e)[:60]}`')]
+
+    def call_function(self, m: pf.Module, fn: ast.FunctionDef, call: Optional[ast.Call], fx: Optional[dict]) -> List[tuple]:
+        """Abstract results of fn; arguments are taken from `call` evaluated in fx (root call: the single parameter is ARG)."""
+        key = (m.rel, fn.name)
+        depth = (fx['depth'] + 1) if fx else 0
+        if depth > 6 or (fx and key in fx['stack']):
+            return [('unknown', f'recursion / call depth at {fn.name}')]
+        a = fn.args
+        params = [x.arg for x in a.posonlyargs + a.args]
+        env: Dict[str, List[tuple]] = {}
+        if a.vararg or a.kwarg:
+            return [('unknown', f'{m.rel}::{fn.name} takes *args / **kwargs')]
+        for dco in fn.decorator_list:
+            dn = pf.dotted(dco.func if isinstance(dco, ast.Call) else dco) or pf.nsrc(dco)
+            if dn in _CACHE_DECORATORS:
+                r = self.resolve_global(m, dn.split('.')[0])
+                if r[0] != 'pure' or not (r[1].startswith('functools') or r[1] in _CACHE_DECORATORS):
+                    return [('unknown', f'{m.rel}::{fn.name}: decorator `{dn}` does not resolve to functools')]
+                self.decorated.append(f'{m.rel}::{fn.name}::@{dn}')
+            elif dn.split('.')[-1] in {x.split('.')[-1] for x in _NEUTRAL_DECORATORS}:
+                continue
+            else:
+                return [('unknown', f'{m.rel}::{fn.name} carries the decorator `{pf.nsrc(dco)[:50]}`, which may cache or alter its result')]
+        defaults = dict(zip(params[len(params) - len(a.defaults):], a.defaults))
+        if call is None:
+            if not params:
+                return [('unknown', f'{m.rel}::{fn.name} has no parameter')]
+            env[params[0]] = [('arg', ast.Name(id=ARG, ctx=ast.Load()), None)]
+            rest = params[1:]
+        else:
+            if any(isinstance(x, ast.Starred) for x in call.args) or any(k.arg is None for k in call.keywords) or len(call.args) > len(params):
+                return [('unknown', f'`{pf.nsrc(call)[:60]}`: argument passing not recognised')]
+            for p_, x in zip(params, call.args):
+                env[p_] = self.ev(x, fx)  # type: ignore[arg-type]
+            for k in call.keywords:
+                if k.arg not in params or k.arg in env:
+                    return [('unknown', f'`{pf.nsrc(call)[:60]}`: argument passing not recognised')]
+                env[k.arg] = self.ev(k.value, fx)  # type: ignore[arg-type]
+            rest = [p_ for p_ in params if p_ not in env]
+        for p_ in rest + [k.arg for k in a.kwonlyargs]:
+            dflt = defaults.get(p_)
+            if p_ in [k.arg for k in a.kwonlyargs]:
+                dflt = dict(zip([k.arg for k in a.kwonlyargs], a.kw_defaults)).get(p_)
+            if dflt is None:
+                return [('unknown', f'{m.rel}::{fn.name}: parameter {p_} is not bound')]
+            if isinstance(dflt, (ast.Dict, ast.List, ast.Set)) or (isinstance(dflt, ast.Call) and (pf.dotted(dflt.func) or '').split('.')[-1] in {c.split('.')[-1] for c in _CONTAINER_CTORS}):
+                env[p_] = [('container', f'{m.rel}::{fn.name}(<default of {p_}>)', dflt, m)]
+            elif isinstance(dflt, ast.Constant):
+                env[p_] = [('const', dflt.value)]
+            else:
+                return [('unknown', f'{m.rel}::{fn.name}: default of {p_} not recognised')]
+        if (m.rel, fn.name) not in self.functions:
+            self.functions.append((m.rel, fn.name))
+        defs = pf.assignments(fn)
+        for p_ in params + [k.arg for k in a.kwonlyargs]:
+            ds = [d for d in defs.get(p_, []) if not isinstance(d, ast.arg)]
+            if ds:
+                # a rebound parameter: every definition counts
+                defs = dict(defs)
+                defs[p_] = ds
+                env_p = env.pop(p_)
+                fx2_env_extra = env_p
+            else:
+                defs = {k: v for k, v in defs.items() if k != p_}
+        nfx = {'m': m, 'fn': fn, 'env': env, 'defs': defs, 'busy': set(), 'depth': depth, 'stack': (fx['stack'] if fx else ()) + (key,)}
+        out: List[tuple] = []
+        has_yield = False
+        for n in pf.walk_shallow(fn):
+            if isinstance(n, (ast.Yield, ast.YieldFrom, ast.Await)):
+                has_yield = True
+            elif isinstance(n, ast.Return):
+                if n.value is None:
+                    out.append(('const', None))
+                else:
+                    out += self.ev(n.value, nfx)
+            elif isinstance(n, (ast.Assign, ast.AugAssign, ast.AnnAssign)):
+                targets = n.targets if isinstance(n, ast.Assign) else [n.target]
+                for t in targets:
+                    for x in ([t] if not isinstance(t, (ast.Tuple, ast.List)) else list(t.elts)):
+                        if isinstance(x, ast.Subscript):
+                            bases = self.ev(x.value, nfx)
+                            for b in bases:
+                                if b[0] == 'container' and isinstance(n, ast.Assign):
+                                    self.writes.append({'C': b[1], 'K': self.ev(x.slice, nfx), 'V': self.ev(n.value, nfx), 'm': m, 'fn': fn, 'node': n})
+                                else:
+                                    out.append(('unknown', f'store `{pf.nsrc(n)[:60]}` in {fn.name}'))
+                        elif isinstance(x, ast.Attribute):
+                            out.append(('unknown', f'attribute store `{pf.nsrc(n)[:60]}` in {fn.name}: state outside the recognised memo idioms'))
+            elif isinstance(n, ast.Expr) and isinstance(n.value, ast.Call):
+                # statement-level calls: container mutations are recorded by _call; anything else must be pure
+                r = self.ev(n.value, nfx)
+                out += [v for v in r if v[0] == 'unknown']
+            elif isinstance(n, (ast.Global, ast.Nonlocal)):
+                stored = {x.id for x in pf.walk_shallow(fn) if isinstance(x, ast.Name) and isinstance(x.ctx, ast.Store)}
+                if stored & set(n.names):
+                    out.append(('unknown', f'{fn.name} rebinds the module-level name(s) {sorted(stored & set(n.names))}: a scalar memo is not modelled'))
+            elif isinstance(n, ast.Delete):
+                out.append(('unknown', f'`{pf.nsrc(n)[:50]}` in {fn.name}'))
+            elif isinstance(n, (ast.FunctionDef, ast.Lambda, ast.ClassDef)) and n is not fn:
+                out.append(('unknown', f'nested definition in {fn.name}'))
+        if has_yield:
+            return [('unknown', f'{fn.name} is a generator / coroutine')]
+        if not out:
+            out.append(('const', None))
+        return out
+
+
+
+def _peel_key(t: ast.AST) -> ast.AST:
+    """Strip wrappers that are injective in the wrapped value: (X,), (X, const), str(X), intern(X), X + 'c', 'c' + X, f'c{X}c'."""
+    while True:
+        if isinstance(t, ast.Tuple):
+            var = [x for x in t.elts if not isinstance(x, ast.Constant)]
+            if len(var) == 1 and not isinstance(var[0], ast.Starred):
+                t = var[0]
+                continue
+        if isinstance(t, ast.Call) and not t.keywords and len(t.args) == 1 and pf.dotted(t.func) in ('str', 'sys.intern', 'intern', 'tuple') and \
+                (pf.dotted(t.func) != 'tuple' or isinstance(t.args[0], (ast.Tuple, ast.List))):
+            t = t.args[0]
+            continue
+        if isinstance(t, ast.BinOp) and isinstance(t.op, ast.Add) and (isinstance(t.left, ast.Constant) or isinstance(t.right, ast.Constant)):
+            t = t.right if isinstance(t.left, ast.Constant) else t.left
+            continue
+        if isinstance(t, ast.JoinedStr):
+            holes = [v for v in t.values if isinstance(v, ast.FormattedValue)]
+            if len(holes) == 1 and holes[0].format_spec is None and holes[0].conversion in (-1, ord('s')):
+                t = holes[0].value
+                continue
+        return t
+
+
+def _peel_value(t: ast.AST) -> ast.AST:
+    while isinstance(t, ast.Call) and not t.keywords and len(t.args) == 1 and pf.dotted(t.func) in ('str', 'sys.intern', 'intern'):
+        t = t.args[0]
+    return t
+
+
+def _strip_chain(t: ast.AST) -> Optional[List[Tuple[str, Optional[str]]]]:
+    """X.strip() / .lstrip(c) / .rstrip() ... applied to the argument itself -> [(method, chars|None) ...]; None if another shape."""
+    ops: List[Tuple[str, Optional[str]]] = []
+    while True:
+        if isinstance(t, ast.Name) and t.id == ARG:
+            return ops
+        if isinstance(t, ast.Call) and isinstance(t.func, ast.Attribute) and t.func.attr in ('strip', 'lstrip', 'rstrip') and not t.keywords and len(t.args) <= 1:
+            if t.args:
+                if not (isinstance(t.args[0], ast.Constant) and (isinstance(t.args[0].value, str) or t.args[0].value is None)):
+                    return None
+                ops.append((t.func.attr, t.args[0].value))
+            else:
+                ops.append((t.func.attr, None))
+            t = t.func.value
+            continue
+        return None
+
+
+def grammar_skips_outer(G: P.Grammar, chars: R.CharSet, left: bool, right: bool) -> Optional[str]:
+    """None when the start rule begins (ends) with a greedy one-class repetition terminal that accepts every string over `chars`:
+    removing such characters at the start (end) of the text does not change the parse.  Otherwise the reason."""
+    e = G.rules[G.default]
+    if e[0] != 'seq' or len(e[1]) < 2:
+        return f'the start rule `{G.default}` is not a sequence'
+    for side, x in (('first', e[1][0]), ('last', e[1][-1])):
+        if (side == 'first' and not left) or (side == 'last' and not right):
+            continue
+        if x[0] != 'ref':
+            return f'the {side} member of `{G.default}` is not a whitespace rule'
+        w = G.rules[x[1]]
+        if w[0] != 're' or w[2]:
+            return f'the {side} member `{x[1]}` of `{G.default}` is not a regex terminal'
+        try:
+            import re._constants as sc
+            import re._parser as spr
+        except ImportError:  # pragma: no cover
+            import sre_constants as sc  # type: ignore
+            import sre_parse as spr  # type: ignore
+        items = list(spr.parse(w[1]))
+        single = len(items) == 1 and items[0][0] is sc.MAX_REPEAT and items[0][1][0] == 0 and items[0][1][1] == sc.MAXREPEAT and len(list(items[0][1][2])) == 1
+        if not single:
+            return f'the terminal `{x[1]}` = {w[1]!r} is not a greedy `[class]*`'
+        bad = R.included(R.lang(R.star(R.chars(chars)), 'stripped*'), R.from_regex(w[1], 0, 'fullmatch'))
+        if bad is not None:
+            return f'the terminal `{x[1]}` = {w[1]!r} does not accept {bad!r}, which the key normalisation removes'
+    return None
+
+
+class KeyEval:
+    """Concrete evaluation of a key / parse-input function T on our own strings (pyconc; Unsupported -> decline)."""
+
+    def __init__(self, ses: Session):
+        self.ses = ses
+
+    def __call__(self, t: ast.AST, rel: Optional[str], s: str) -> Tuple[Any, Optional[str]]:
+        it = self.ses.it
+        env = C.Env(None, it.module(rel or F_TYPES))
+        env.vars[ARG] = s
+        try:
+            return it.ev(t, env), None
+        except C.PyRaise as r:
+            return None, f'{r.name}{r.pargs!r}'[:160]
+
+
+def true_parse(ses: Session, s: Any) -> Tuple[Any, Optional[str]]:
+    """visit(parse(s)) with the grammar and the visitor themselves (no front door): what the text denotes."""
+    if not isinstance(s, str):
+        return None, f'TypeError: parse of a {type(s).__name__}'
+    try:
+        return ses.it.eval_src(F_GRAMMAR, 'type_node_visitor.visit(type_grammar.parse(s))', {'s': s}), None
+    except C.PyRaise as r:
+        return None, f'{r.name}{r.pargs!r}'[:160]
+
+
+def _tsrc(t: ast.AST) -> str:
+    return pf.nsrc(t).replace(ARG, 'type_str')
+
+
+def check_parse_flow(ctx: Ctx, mt: pf.Module, G: P.Grammar, battery: List[Tuple[str, Any, str]], ses: Session) -> None:
+    """R7.  battery: (text, the type it was printed from, description)."""
+    fl = Flow(ctx)
+    fn = mt.func('dtype')
+    results = fl.call_function(mt, fn, None, None)
+    declines: List[str] = []
+    kev = KeyEval(ses)
+    cons0 = f'{F_TYPES}::dtype'
+    by_text = {}
+    for text, t, desc in battery:
+        by_text.setdefault(text, (t, desc))
+    texts = list(by_text.items())
+
+    def same_type(a: Any, b: Any) -> bool:
+        return types_equal(ses, a, b)
+
+    def transform_verdict(t: ast.AST, rel: Optional[str], as_key: bool) -> Tuple[str, str]:
+        """('ok', why) the transformation cannot merge / alter texts with different parses; ('bad', witness); ('unknown', why)."""
+        core = _peel_key(t) if as_key else _peel_value(t)
+        chain = _strip_chain(core)
+        if chain is not None and not chain:
+            return 'ok', 'the argument itself'
+        if chain is not None:
+            chars = R.CharSet.empty()
+            for meth, cs in chain:
+                chars = chars | (R.pred('str.isspace') if cs is None else R.CharSet.of(cs))
+            left = any(m_ in ('strip', 'lstrip') for m_, _c in chain)
+            right = any(m_ in ('strip', 'rstrip') for m_, _c in chain)
+            why = grammar_skips_outer(G, chars, left, right)
+            if why is None:
+                return 'ok', f'`{_tsrc(t)}` only removes characters that the start rule of the grammar skips at both ends'
+            # not provably harmless: look for a witness below
+        # witness search on the battery
+        if as_key:
+            seen: Dict[str, Tuple[str, Any, str]] = {}
+            for text, (ty, desc) in texts:
+                k, err = kev(t, rel, text)
+                if err is not None:
+                    return 'bad', f'`{_tsrc(t)}` raises {err} for the printed form {ascii(text)} of {desc}'
+                try:
+                    kk = ses.it.to_repr(k)
+                except AnalysisError as ex:
+                    return 'unknown', f'key `{_tsrc(t)}`: {ex}'
+                if kk in seen and not same_type(seen[kk][1], ty):
+                    h, hty, hdesc = seen[kk]
+                    return 'bad', (f'`{_tsrc(t)}` maps {ascii(h)} (printed form of {hdesc}) and {ascii(text)} (printed form of {desc}) to the same key {kk[:80]}, '
+                                   f'but they denote different types')
+                seen.setdefault(kk, (text, ty, desc))
+            return 'unknown', f'`{_tsrc(t)}` is not one of the recognised injective / parse-preserving shapes and no colliding pair was found among {len(texts)} sample strings'
+        for text, (ty, desc) in texts:
+            s2, err = kev(t, rel, text)
+            if err is not None:
+                return 'bad', f'`{_tsrc(t)}` raises {err} for the printed form {ascii(text)} of {desc}'
+            got, perr = true_parse(ses, s2)
+            if perr is not None or not same_type(ty, got):
+                what = f'does not parse ({perr})' if perr is not None else f'parses as {ascii(ses.show(got))}'
+                return 'bad', f'for t = {desc}, the printed form {ascii(text)} is turned into {ascii(s2) if isinstance(s2, str) else type(s2).__name__} before parsing, which {what}, not t'
+        return 'unknown', f'`{_tsrc(t)}` is applied to the text before parsing; it is not a recognised parse-preserving shape (no sample is altered by it)'
+
+    def _replays(h: str, text: str, ty: Any) -> bool:
+        """dtype(h); dtype(text) in a fresh modelled process returns something that is not the type `text` was printed from."""
+        fresh = Session()
+        try:
+            fresh.try_dtype(h)
+            got, err = fresh.try_dtype(text)
+        except C.Unsupported as ex:
+            raise AnalysisError(f'R7: cannot replay the colliding history with the evaluator: {ex}') from None
+        return err is not None or not struct_equal(fresh.it, ty, got)
+
+    seen_ret = set()
+    for v in results:
+        if v[0] == 'unknown':
+            declines.append(str(v[1]))
+            continue
+        if v[0] == 'const' and v[1] is None and len(results) > 1:
+            continue  # flow-insensitive artefact of `x = cache.get(k)` / bare return in a helper
+        if v[0] == 'parsed':
+            key = ('parsed', pf.nsrc(v[1]))
+            if key in seen_ret:
+                continue
+            seen_ret.add(key)
+            verdict, why = transform_verdict(v[1], v[2], as_key=False)
+            cons = f'{cons0}::returns visit(parse({_tsrc(v[1])}))'
+            if verdict == 'ok':
+                ctx.ok('R7', cons, why)
+            elif verdict == 'bad':
+                ctx.bad('R7', cons, f'dtype parses `{_tsrc(v[1])}` instead of its argument: {why}', mt.path, fn.lineno)
+            else:
+                declines.append(why)
+        elif v[0] == 'memo':
+            cid, K, krel = v[1], v[2], v[3]
+            key = ('memo', cid, pf.nsrc(K))
+            if key in seen_ret:
+                continue
+            seen_ret.add(key)
+            cons = f'{cons0}::returns {cid.split("::")[-1]}[{_tsrc(K)}]'
+            ws = [w for w in fl.writes if w['C'] == cid]
+            # other writers in the module(s) that the flow did not visit
+            foreign = _foreign_writers(fl, cid)
+            if foreign:
+                declines.append(f'the container {cid} is also written by {foreign}; not analysed')
+                continue
+            if not ws:
+                declines.append(f'dtype returns entries of {cid}, which no analysed function fills (pre-populated table?); not analysed')
+                continue
+            problem: Optional[str] = None
+            unknown: Optional[str] = None
+            kv, kwhy = transform_verdict(K, krel, as_key=True)
+            for w in ws:
+                wk = [k for k in w['K']]
+                if any(k[0] not in ('arg',) for k in wk):
+                    unknown = f'a key written to {cid} in {w["fn"].name} is not a pure function of the argument'
+                    continue
+                for k in wk:
+                    for val in w['V']:
+                        if val[0] == 'memo' and val[1] == cid:
+                            continue
+                        if val[0] == 'const' and val[1] is None:
+                            continue
+                        if val[0] != 'parsed':
+                            unknown = f'the value stored in {cid} by `{pf.nsrc(w["node"])[:60]}` is not a parse result ({val[0]}{": " + str(val[1]) if val[0] == "unknown" else ""})'
+                            continue
+                        same_key = pf.nsrc(k[1]) == pf.nsrc(K)
+                        tv, twhy = transform_verdict(val[1], val[2], as_key=False)
+                        if tv == 'bad':
+                            problem = f'`{pf.nsrc(w["node"])[:70]}` stores the parse of `{_tsrc(val[1])}`: {twhy}'
+                        elif tv == 'unknown':
+                            unknown = twhy
+                        if same_key and kv == 'ok':
+                            continue
+                        # read key K(s), write key Kw(h), stored value parse(Tv(h)): search a history h ; s
+                        index: Dict[str, List[Tuple[str, Any, str]]] = {}
+                        for text, (ty, desc) in texts:
+                            kwv, err = kev(k[1], k[2], text)
+                            if err is not None:
+                                problem = f'the key `{_tsrc(k[1])}` raises {err} for {ascii(text)}'
+                                break
+                            try:
+                                index.setdefault(ses.it.to_repr(kwv), []).append((text, ty, desc))
+                            except AnalysisError as ex:
+                                unknown = f'key `{_tsrc(k[1])}`: {ex}'
+                                break
+                        if problem or (unknown and not index):
+                            continue
+                        found = None
+                        for text, (ty, desc) in texts:
+                            kr, err = kev(K, krel, text)
+                            if err is not None:
+                                problem = f'the key `{_tsrc(K)}` raises {err} for {ascii(text)}'
+                                break
+                            try:
+                                kk = ses.it.to_repr(kr)
+                            except AnalysisError as ex:
+                                unknown = f'key `{_tsrc(K)}`: {ex}'
+                                break
+                            for h, hty, hdesc in index.get(kk, []):
+                                if h != text and not same_type(hty, ty):
+                                    found = (h, hdesc, text, desc, kk)
+                                    break
+                            if found:
+                                break
+                        if found and not _replays(found[0], found[2], by_text[found[2]][0]):
+                            unknown = (f'the keys of {ascii(found[0])} and {ascii(found[2])} collide in {cid}, but replaying dtype on that history with the evaluator does '
+                                       f'not reproduce a wrong result (guarded write?)')
+                        elif found:
+                            h, hdesc, text, desc, kk = found
+                            problem = (f'history: hl.dtype({ascii(h)}) [printed form of {hdesc}] stores its result under the key {kk[:70]} '
+                                       f'(`{pf.nsrc(w["node"])[:60]}`); then hl.dtype({ascii(text)}) [printed form of t = {desc}] computes the same key and returns the '
+                                       f'stored type instead of t. The key `{_tsrc(K)}` is not an injective function of the text: two texts that denote different types '
+                                       f'share a key (what the key drops or folds is significant, e.g. inside back-ticked names)')
+                        elif not problem:
+                            unknown = unknown or (kwhy if kv != 'ok' else f'read key `{_tsrc(K)}` and write key `{_tsrc(k[1])}` differ; no colliding history found')
+            if problem:
+                ctx.bad('R7', cons, problem, mt.path, fn.lineno, extra={'container': cid, 'key': _tsrc(K)})
+            elif unknown:
+                declines.append(unknown)
+            else:
+                ctx.ok('R7', cons, f'memo keyed by {kwhy}; only written with the value parsed from the same text')
+        else:
+            declines.append(f'dtype may return a {v[0]} value ({pf.nsrc(v[1])[:50] if len(v) > 1 and isinstance(v[1], ast.AST) else v[1:] })')
+    for d in fl.decorated:
+        ctx.ok('R7', f'{d}::keyed by the arguments themselves', 'functools cache: key = the argument tuple (str equality), value = result of the call on that very argument')
+    # the visitor(s) keep no state between parses
+    for vrel, vcls in fl.visitors:
+        why = _visitor_state(vcls)
+        if why is not None:
+            declines.append(f'{vrel}::{vcls.name}: {why}')
+        else:
+            ctx.ok('R7', f'{vrel}::{vcls.name}::visitor methods keep no state between parses', {'methods': sum(isinstance(x, ast.FunctionDef) for x in vcls.body)})
+    if declines:
+        raise AnalysisError('R7 (dtype returns the parse of its own argument): ' + '; '.join(dict.fromkeys(declines)))
+
+
+def _foreign_writers(fl: Flow, cid: str) -> List[str]:
+    rel, _, name = cid.partition('::')
+    base = name.split('.')[0].split('(')[0]
+    out = []
+    try:
+        m = pf.load(rel)
+    except AnalysisError:
+        return []
+    analysed = {f for r_, f in fl.functions if r_ == rel}
+    for q, f in m.functions():
+        if q in analysed or q.split('.')[-1] in analysed and '.' not in q:
+            continue
+        for n in pf.walk_shallow(f):
+            tgt = None
+            if isinstance(n, (ast.Assign, ast.AugAssign, ast.Delete)):
+                ts = n.targets if isinstance(n, (ast.Assign, ast.Delete)) else [n.target]
+                for t in ts:
+                    if isinstance(t, ast.Subscript) and pf.dotted(t.value) == name:
+                        tgt = q
+            elif isinstance(n, ast.Call) and isinstance(n.func, ast.Attribute) and pf.dotted(n.func.value) == name and \
+                    n.func.attr in ('setdefault', 'update', 'pop', 'popitem', '__setitem__'):
+                tgt = q
+            if tgt:
+                out.append(tgt)
+    return sorted(set(out))
+
+
+_MUTATORS = {'append', 'extend', 'insert', 'add', 'update', 'setdefault', 'pop', 'popitem', 'remove', 'discard', 'clear', '__setitem__', 'move_to_end'}
+
+
+def _visitor_state(c: ast.ClassDef) -> Optional[str]:
+    """None when no method of the visitor class writes to anything but its own locals."""
+    for st in c.body:
+        if isinstance(st, (ast.Assign, ast.AnnAssign)):
+            v = st.value
+            if isinstance(v, (ast.Dict, ast.List, ast.Set)) or (isinstance(v, ast.Call) and (pf.dotted(v.func) or '').split('.')[-1] in ('dict', 'list', 'set', 'defaultdict', 'OrderedDict')):
+                tn = st.targets[0] if isinstance(st, ast.Assign) else st.target
+                if not (isinstance(tn, ast.Name) and tn.id == 'unwrapped_exceptions'):
+                    return f'class-level mutable `{pf.nsrc(st)[:50]}`'
+            continue
+        if not isinstance(st, ast.FunctionDef):
+            if isinstance(st, ast.Expr) and isinstance(st.value, ast.Constant):
+                continue
+            return f'class body statement `{pf.nsrc(st)[:50]}`'
+        for dco in st.decorator_list:
+            dn = pf.dotted(dco.func if isinstance(dco, ast.Call) else dco) or pf.nsrc(dco)
+            if dn.split('.')[-1] not in ('staticmethod', 'override'):
+                return f'{st.name} carries the decorator `{pf.nsrc(dco)[:40]}`'
+        if st.name in ('visit', '__init__', '__new__', '__getattr__', '__getattribute__'):
+            return f'{st.name} is overridden'
+        locals_ = set(pf.assignments(st))
+        for n in ast.walk(st):
+            if isinstance(n, (ast.Global, ast.Nonlocal)):
+                return f'{st.name} declares `{pf.nsrc(n)}`'
+            if isinstance(n, (ast.Attribute, ast.Subscript)) and isinstance(n.ctx, (ast.Store, ast.Del)):
+                root = n
+                while isinstance(root, (ast.Attribute, ast.Subscript)):
+                    root = root.value
+                if not (isinstance(root, ast.Name) and root.id in locals_ and root.id not in ('self', 'node') and isinstance(n, ast.Subscript)):
+                    return f'{st.name} stores to `{pf.nsrc(n)[:40]}`'
+                if isinstance(root, ast.Name) and root.id in [a.arg for a in st.args.args]:
+                    return f'{st.name} stores into its argument `{pf.nsrc(n)[:40]}`'
+            if isinstance(n, ast.Call) and isinstance(n.func, ast.Attribute) and n.func.attr in _MUTATORS:
+                root = n.func.value
+                while isinstance(root, (ast.Attribute, ast.Subscript)):
+                    root = root.value
+                if not (isinstance(root, ast.Name) and root.id in locals_ and root.id not in [a.arg for a in st.args.args]):
+                    return f'{st.name} calls `{pf.nsrc(n)[:50]}` on something that is not a local'
+    return None
+
+
+
+_PRINTER_METHODS = ('__str__', '__repr__', 'pretty', '_pretty', '_parsable_string')
+
+
+def check_printer_memo(ctx: Ctx, mt: pf.Module, classes: Dict[str, ast.ClassDef]) -> None:
+    """R7 (printer side): a printer either recomputes its text from the attributes on every call, or memoises it on attributes that
+    never change after construction."""
+    all_classes = dict(classes)
+    try:
+        all_classes['HailType'] = mt.cls('HailType')
+    except AnalysisError:
+        pass
+
+    def chain(c: ast.ClassDef) -> List[ast.ClassDef]:
+        out = [c]
+        for b in c.bases:
+            d = pf.dotted(b)
+            if d in all_classes and all_classes[d] is not c:
+                out += chain(all_classes[d])
+        return out
+
+    def self_name(f: ast.FunctionDef) -> Optional[str]:
+        return f.args.args[0].arg if f.args.args else None
+
+    def stores(f: ast.FunctionDef) -> List[Tuple[str, ast.AST, bool]]:
+        """(attr, node, lazy) for every `self.attr = ...` in f; lazy: directly under `if self.attr is None` / `if not hasattr`."""
+        sn = self_name(f)
+        out = []
+        par = mt.parents()
+        for n in ast.walk(f):
+            if isinstance(n, ast.Attribute) and isinstance(n.ctx, ast.Store) and isinstance(n.value, ast.Name) and n.value.id == sn:
+                lazy = False
+                cur = par.get(n)
+                while cur is not None and cur is not f:
+                    if isinstance(cur, ast.If):
+                        tsrc = pf.nsrc(cur.test)
+                        if tsrc in (f'{sn}.{n.attr} is None', f'not hasattr({sn}, {n.attr!r})', f'not {sn}.{n.attr}'):
+                            lazy = True
+                    cur = par.get(cur)
+                out.append((n.attr, n, lazy))
+        return out
+
+    for cname, c in all_classes.items():
+        ch = chain(c)
+        own_printers = [st for st in c.body if isinstance(st, ast.FunctionDef) and st.name in _PRINTER_METHODS]
+        if not own_printers:
+            continue
+        memo_attrs: Dict[str, str] = {}
+        for f in own_printers:
+            for dco in f.decorator_list:
+                dn = pf.dotted(dco.func if isinstance(dco, ast.Call) else dco) or pf.nsrc(dco)
+                if dn.split('.')[-1] in ('lru_cache', 'cache', 'cached_property'):
+                    memo_attrs[f'@{dn} on {f.name}'] = f.name
+                elif dn.split('.')[-1] not in ('abstractmethod', 'typecheck_method', 'typecheck', 'override'):
+                    raise AnalysisError(f'{F_TYPES}::{cname}.{f.name}: decorator `{pf.nsrc(dco)[:40]}` on a printer is not recognised')
+            for attr, node, lazy in stores(f):
+                memo_attrs[attr] = f.name
+        cons = f'{F_TYPES}::{cname}::printed text is computed from attributes that are fixed at construction'
+        if not memo_attrs:
+            ctx.ok('R7', cons, {'printers': [f.name for f in own_printers], 'memo': None})
+            continue
+        # attributes the printers read (through properties / methods of the class chain, transitively)
+        methods: Dict[str, ast.FunctionDef] = {}
+        for k in reversed(ch):
+            for st in k.body:
+                if isinstance(st, ast.FunctionDef):
+                    methods[st.name] = st
+        read: set = set()
+        work = [f.name for f in own_printers]
+        seen = set()
+        while work:
+            mn = work.pop()
+            if mn in seen or mn not in methods:
+                continue
+            seen.add(mn)
+            f = methods[mn]
+            sn = self_name(f)
+            for n in ast.walk(f):
+                if isinstance(n, ast.Attribute) and isinstance(n.value, ast.Name) and n.value.id == sn and isinstance(n.ctx, ast.Load):
+                    if n.attr in methods:
+                        work.append(n.attr)
+                    else:
+                        read.add(n.attr)
+        mutable: Dict[str, str] = {}
+        for mn, f in methods.items():
+            if mn in ('__init__', '__new__'):
+                continue
+            for attr, node, lazy in stores(f):
+                if attr in memo_attrs or lazy:
+                    continue
+                mutable[attr] = mn
+        stale = sorted(a for a in read if a in mutable)
+        ctx.check(not stale, 'R7', cons,
+                  f'{cname}.{sorted(set(memo_attrs.values()))[0]} remembers its text ({", ".join(sorted(memo_attrs))}) but reads the attribute(s) {stale}, which '
+                  f'{cname}.{mutable[stale[0]] if stale else ""} assigns after construction: the remembered text goes stale and no longer parses back to the type',
+                  mt.path, own_printers[0].lineno, detail={'memo': sorted(memo_attrs), 'reads': sorted(read)})
+
+
+
+# --------------------------------------------------------------------------------------
+# R9: the engine reads `_parsable_string()` of every sample in full, with the same structure and the same names as the Python grammar
+# reads `str()` of it (IRLexer / IRParser.type_expr modelled from the extracted Scala fragments)
+# --------------------------------------------------------------------------------------
+
+
+class EngineReject(Exception):
+    def __init__(self, msg: str, escape_char: Optional[str] = None):
+        super().__init__(msg)
+        self.escape_char = escape_char
+
+
+class EngineModel:
+    def __init__(self, ctx: Ctx, lex: dict, ident: dict, tokens: List[str], arms: dict, L_java: R.Lang, cases: Dict[str, str]):
+        self.lex, self.arms, self.cases = lex, arms, cases
+        ctx.need(tokens[:4] == ['identifier', 'float64_literal', 'int64_literal', 'string_literal'] and len(tokens) == 5 and tokens[4].endswith('.r'),
+                 f'{F_PARSER}::IRLexer.token: alternatives changed ({tokens}); the lexer model does not apply')
+        ctx.need(ident['alternatives'] == ['backtickLiteral', 'ident'], f'{F_PARSER}::IRLexer.identifier is not `backtickLiteral | ident` ({ident["alternatives"]})')
+        self.delim = ident.get('backtick_delim', '`')
+        self.punct = re.compile(S.scala_string_value(tokens[4][:-2], F_PARSER))
+        self.java = R.to_dfa(L_java, R.alphabet_for([L_java]))
+        src = S.load(F_PARSER)
+        lspan = src.find_object('IRLexer')
+        ltext = src.norm(lspan[0], lspan[1])
+        self.float_res = []
+        for pat in (r'[+-]?\d+(\.\d+)?[eE][+-]?\d+', r'[+-]?\d*\.\d+'):
+            ctx.need(('"""' + pat + '""".r') in ltext, f'{F_PARSER}::IRLexer.float64_literal changed; the lexer model does not apply')
+            self.float_res.append(re.compile(pat, re.A))
+        ctx.need('def int64_literal: Parser[Long] = wholeNumber.map(_.toLong)' in ltext, f'{F_PARSER}::IRLexer.int64_literal changed')
+        self.int_re = re.compile(r'-?\d+', re.A)
+        self.ws = re.compile(r'\s+')
+        # IRParser pieces
+        pspan = src.find_object('IRParser')
+        self.src, self.pspan = src, pspan
+        _st, lo, hi, _sig = src.find_def('type_expr', pspan, signature_contains='it: TokenIterator')
+        body = src.norm(lo, hi)
+        head = body.split('identifier(it) match')[0]
+        self.skip_plus = 'case x: PunctuationToken if x.value == "+" => punctuation(it, "+")' in head
+        ctx.need(self.skip_plus or 'punctuation' not in head, f'{F_PARSER}::IRParser.type_expr: prelude `{head[:80]}` not recognised')
+        rs = [src.norm(lo2, hi2) for _s, lo2, hi2, _g in src.find_defs('repsepUntil', pspan)]
+        ctx.need(rs == ['{ val xs = ArraySeq.newBuilder[T] while (it.hasNext && it.head != end) { xs += f(it) if (it.head == sep) consumeToken(it): Unit } xs.result() }'],
+                 f'{F_PARSER}::IRParser.repsepUntil changed; its model does not apply')
+        self.scripts: Dict[str, Tuple[List[tuple], str]] = {}
+        self.helpers: Dict[str, Tuple[List[tuple], str]] = {}
+
+    # ---- lexer
+    def tokenize(self, text: str) -> List[Tuple[str, Any]]:
+        out: List[Tuple[str, Any]] = []
+        i, n = 0, len(text)
+        while True:
+            mws = self.ws.match(text, i)
+            if mws:
+                i = mws.end()
+            if i >= n:
+                return out
+            c = text[i]
+            if c == self.delim:
+                j = i + 1
+                body = []
+                while True:
+                    if j >= n:
+                        raise EngineReject(f'unterminated backtick identifier starting at offset {i}')
+                    ch = text[j]
+                    j += 1
+                    if ch == self.delim:
+                        break
+                    body.append(ch)
+                    if ch == '\\':
+                        if j >= n:
+                            raise EngineReject('unterminated backtick identifier')
+                        d = text[j]
+                        if d not in self.lex['escape_chars']:
+                            raise EngineReject(f'invalid escape character {d!r} in backtick identifier at offset {j}', escape_char=d)
+                        body.append(d)
+                        j += 1
+                units = scala_decode(''.join(body), self.arms)
+                if units is None:
+                    raise EngineReject(f'unescapeString rejects {"".join(body)!r}')
+                out.append(('id', _from_utf16(units)))
+                i = j
+                continue
+            end = R.longest_prefix_match(self.java, text, i)
+            if end is not None and end > i:
+                out.append(('id', text[i:end]))
+                i = end
+                continue
+            if text.startswith('-inf', i):
+                out.append(('float', '-inf'))
+                i += 4
+                continue
+            mf = next((m for m in (r_.match(text, i) for r_ in self.float_res) if m), None)
+            if mf:
+                out.append(('float', mf.group()))
+                i = mf.end()
+                continue
+            mi = self.int_re.match(text, i)
+            if mi:
+                out.append(('int', int(mi.group())))
+                i = mi.end()
+                continue
+            if c in '"\'':
+                raise EngineReject(f'string literal at offset {i} (not expected in a type)')
+            mp = self.punct.match(text, i)
+            if mp:
+                out.append(('punct', mp.group()))
+                i = mp.end()
+                continue
+            raise EngineReject(f'IRLexer has no token for {text[i:i + 10]!r} at offset {i}')
+
+    # ---- parser scripts
+    _STEP = [
+        (re.compile(r'punctuation\(it, "(.)"\)\s*'), lambda m: ('punct', m.group(1))),
+        (re.compile(r'val (\w+) = type_expr\(it\)\s*'), lambda m: ('type', m.group(1))),
+        (re.compile(r'val (\w+) = f\(it\)\s*'), lambda m: ('type', m.group(1))),
+        (re.compile(r'val (\w+) = identifier\(it\)\s*'), lambda m: ('ident', m.group(1))),
+        (re.compile(r'val (\w+) = int32_literal\(it\)\s*'), lambda m: ('int', m.group(1))),
+        (re.compile(r'val (\w+) = repsepUntil\(it, (\w+), PunctuationToken\("(.)"\), PunctuationToken\("(.)"\)\)\s*'),
+         lambda m: ('repsep', m.group(1), m.group(2), m.group(3), m.group(4))),
+        (re.compile(r'while \(it\.hasNext && it\.head == PunctuationToken\("(.)"\)\) (\w+)\(it\): Unit\s*'), lambda m: ('while_punct', m.group(1), m.group(2))),
+    ]
+
+    def _script(self, text: str, where: str) -> Tuple[List[tuple], str]:
+        t = text.strip()
+        if t.startswith('{') and t.endswith('}'):
+            t = t[1:-1].strip()
+        steps: List[tuple] = []
+        while True:
+            for rx, mk in self._STEP:
+                m = rx.match(t)
+                if m:
+                    steps.append(mk(m))
+                    t = t[m.end():]
+                    break
+            else:
+                break
+        if re.search(r'\bit\b', t):
+            raise AnalysisError(f'{F_PARSER}::{where}: statement `{t[:70]}` reads tokens in a way the model does not know')
+        return steps, t
+
+    def arm(self, kw: str) -> Tuple[List[tuple], str]:
+        if kw not in self.scripts:
+            self.scripts[kw] = self._script(self.cases[kw], f'IRParser.type_expr case "{kw}"')
+        return self.scripts[kw]
+
+    def helper(self, name: str) -> Tuple[List[tuple], str]:
+        if name not in self.helpers:
+            defs = self.src.find_defs(name, self.pspan)
+            if len(defs) != 1:
+                raise AnalysisError(f'{F_PARSER}::IRParser.{name}: expected one definition, found {len(defs)}')
+            body = self.src.norm(defs[0][1], defs[0][2])
+            m = re.fullmatch(r'(\w+)\(type_expr\)\(it\)', body.strip())
+            if m:
+                d2 = self.src.find_defs(m.group(1), self.pspan)
+                if len(d2) != 1 or '(f: TokenIterator => T)(it: TokenIterator)' not in d2[0][3]:
+                    raise AnalysisError(f'{F_PARSER}::IRParser.{m.group(1)}: signature not recognised')
+                body = self.src.norm(d2[0][1], d2[0][2])
+                name2 = m.group(1)
+            else:
+                name2 = name
+            self.helpers[name] = self._script(body, f'IRParser.{name2}')
+        return self.helpers[name]
+
+    def parse_type(self, toks: List[Tuple[str, Any]], pos: int, depth: int = 0) -> Tuple[tuple, int]:
+        if depth > 40:
+            raise AnalysisError('engine model: nesting too deep')
+        if self.skip_plus and pos < len(toks) and toks[pos] == ('punct', '+'):
+            pos += 1
+        if pos >= len(toks):
+            raise EngineReject('No more tokens to consume.')
+        k, v = toks[pos]
+        if k != 'id':
+            raise EngineReject(f'Expected identifier but found {k} {v!r}')
+        if v not in self.cases:
+            raise EngineReject(f'scala.MatchError: type_expr has no case "{v}"')
+        steps, result = self.arm(v)
+        items, pos = self._run(steps, toks, pos + 1, depth)
+        return (v, items), pos
+
+    def _run(self, steps: List[tuple], toks: List[Tuple[str, Any]], pos: int, depth: int) -> Tuple[List[tuple], int]:
+        items: List[tuple] = []
+
+        def take() -> Tuple[str, Any]:
+            nonlocal pos
+            if pos >= len(toks):
+                raise EngineReject('No more tokens to consume.')
+            tk = toks[pos]
+            pos += 1
+            return tk
+        for st in steps:
+            if st[0] == 'punct':
+                tk = take()
+                if tk != ('punct', st[1]):
+                    raise EngineReject(f"Expected punctuation '{st[1]}' but found {tk[0]} {tk[1]!r}")
+            elif st[0] == 'type':
+                sub, pos = self.parse_type(toks, pos, depth + 1)
+                items.append(('type', sub))
+            elif st[0] == 'ident':
+                tk = take()
+                if tk[0] != 'id':
+                    raise EngineReject(f'Expected identifier but found {tk[0]} {tk[1]!r}')
+                items.append(('name', tk[1]))
+            elif st[0] == 'int':
+                tk = take()
+                if tk[0] != 'int' or not -2 ** 31 <= tk[1] < 2 ** 31:
+                    raise EngineReject(f'Expected int32 but found {tk[0]} {tk[1]!r}')
+                items.append(('nat', tk[1]))
+            elif st[0] == 'repsep':
+                _n, fname, sep, end = st[1:]
+                while pos < len(toks) and toks[pos] != ('punct', end):
+                    if fname == 'type_expr':
+                        sub, pos = self.parse_type(toks, pos, depth + 1)
+                        items.append(('type', sub))
+                    else:
+                        hsteps, _res = self.helper(fname)
+                        sub_items, pos = self._run(hsteps, toks, pos, depth + 1)
+                        items += sub_items
+                    if pos >= len(toks):
+                        raise EngineReject('NoSuchElementException: it.head after the last token')
+                    if toks[pos] == ('punct', sep):
+                        pos += 1
+            elif st[0] == 'while_punct':
+                if pos < len(toks) and toks[pos] == ('punct', st[1]):
+                    raise AnalysisError(f'engine model: `{st[1]}` decorators are not modelled')
+            else:
+                raise AnalysisError(f'engine model: step {st}')
+        return items, pos
+
+    def read(self, text: str) -> tuple:
+        toks = self.tokenize(text)
+        tree, pos = self.parse_type(toks, 0)
+        if pos != len(toks):
+            raise EngineReject(f'{len(toks) - pos} token(s) left after the type: {toks[pos][1]!r} ...')
+        return tree
+
+
+def _from_utf16(units: List[int]) -> str:
+    out = []
+    i = 0
+    while i < len(units):
+        u = units[i]
+        if 0xD800 <= u <= 0xDBFF and i + 1 < len(units) and 0xDC00 <= units[i + 1] <= 0xDFFF:
+            out.append(chr(0x10000 + ((u - 0xD800) << 10) + (units[i + 1] - 0xDC00)))
+            i += 2
+        else:
+            out.append(chr(u))
+            i += 1
+    return ''.join(out)
+
+
+def python_tree(G: P.Grammar, ses: Session, text: str) -> tuple:
+    """(rule, items) of the Python grammar's reading of `text`: items in textual order: ('type', subtree) ('name', str) ('nat', int|str)."""
+    root = P.parsimonious_tree(G, text)
+
+    def alt_of(tn: P.PNode) -> tuple:
+        cand = [c for c in tn.children if not c.expr_name and c.children]
+        if tn.expr_name != 'type' or len(cand) != 1 or len(cand[0].children) != 1 or not cand[0].children[0].expr_name:
+            raise AnalysisError(f'{F_GRAMMAR}: node of rule `type` is not `_ (alternative) _`')
+        a = cand[0].children[0]
+        items: List[tuple] = []
+
+        def walk(n: P.PNode) -> None:
+            for c in n.children:
+                if c.expr_name == 'type':
+                    items.append(('type', alt_of(c)))
+                elif c.expr_name == 'identifier':
+                    try:
+                        v = ses.it.eval_src(F_GRAMMAR, 'type_node_visitor.visit(n)', {'n': _PNodeV(c)})
+                    except C.PyRaise as r:
+                        raise AnalysisError(f'{F_GRAMMAR}: visiting the identifier {c.text!r} raises {r}') from None
+                    items.append(('name', v))
+                elif c.expr_name == 'nat':
+                    tx = c.text.strip()
+                    items.append(('nat', int(tx) if tx.isdigit() else tx))
+                else:
+                    walk(c)
+        walk(a)
+        return (a.expr_name, items)
+    return alt_of(root)
+
+
+def check_engine_reading(ctx: Ctx, mt: pf.Module, classes: Dict[str, ast.ClassDef], G: P.Grammar, ses: Session, sm: Samples, eng: EngineModel,
+                         name_ok) -> None:
+    it = ses.it
+    tm = it.module(F_TYPES)
+    recorded: List[str] = []
+    orig = it.global_lookup(tm, 'escape_parsable')
+
+    def spy(it2, a, k):
+        if len(a) == 1 and isinstance(a[0], str):
+            recorded.append(a[0])
+        return it2.call(orig, a, k)
+    kwmap: Dict[str, str] = {}
+    kwrev: Dict[str, str] = {}
+    per_class: Dict[str, Tuple[int, Optional[str]]] = {}
+    skipped_known = 0
+
+    def compare(pt: tuple, et: tuple, path: str) -> Optional[str]:
+        prule, pitems = pt
+        ekw, eitems = et
+        if kwmap.setdefault(prule, ekw) != ekw:
+            return f'at {path}: the Python form `{prule}` is printed for the engine as {ekw!r} here but as {kwmap[prule]!r} elsewhere'
+        if kwrev.setdefault(ekw, prule) != prule:
+            return f'at {path}: the engine keyword {ekw!r} stands for the Python form `{prule}` here but for `{kwrev[ekw]}` elsewhere'
+        if [x[0] for x in pitems] != [x[0] for x in eitems]:
+            return (f'at {path}: str() lists {[x[0] for x in pitems]} under `{prule}` but the engine reads {[x[0] for x in eitems]} under {ekw!r}')
+        for i, (a, b) in enumerate(zip(pitems, eitems)):
+            if a[0] == 'type':
+                r = compare(a[1], b[1], f'{path}/{prule}[{i}]')
+                if r:
+                    return r
+            elif a[1] != b[1]:
+                return f'at {path}: member {i} of `{prule}` is the {a[0]} {a[1]!r} in str() but the engine reads {b[1]!r}'
+        return None
+
+    it.set_global(tm, 'escape_parsable', C.Builtin('escape_parsable', spy))
+    try:
+        for cname, desc, t in sm.all():
+            c = classes.get(cname)
+            n, fail = per_class.get(cname, (0, None))
+            if fail is not None:
+                continue
+            meth = None
+            if c is not None:
+                meth = _method(c, '_parsable_string')
+                body = [s_ for s_ in meth.body if not (isinstance(s_, ast.Expr) and isinstance(s_.value, ast.Constant))] if meth is not None else []
+                if meth is None or (len(body) == 1 and isinstance(body[0], ast.Raise)):
+                    continue
+            del recorded[:]
+            try:
+                etext = ses.expr('t._parsable_string()', t=t)
+                ptext = ses.expr('str(t)', t=t)
+            except C.PyRaise as r:
+                if r.name == 'NotImplementedError':
+                    continue
+                per_class[cname] = (n + 1, f'for t = {desc}, t._parsable_string() raises {r.name}{r.pargs!r}')
+                continue
+            if not all(name_ok(x) for x in recorded):
+                skipped_known += 1
+                continue
+            if cname == '_trngstate':
+                continue
+            try:
+                et = eng.read(etext)
+            except EngineReject as ex:
+                per_class[cname] = (n + 1, f'for t = {desc}, t._parsable_string() = {ascii(etext)} is rejected by the engine: {ex}')
+                continue
+            try:
+                pt = python_tree(G, ses, ptext)
+            except P.ParseFailure:
+                continue  # str(t) does not parse with the Python grammar: reported by R4 / R8
+            why = compare(pt, et, 't')
+            per_class[cname] = (n + 1, None if why is None else f'for t = {desc}: str(t) = {ascii(ptext)}, t._parsable_string() = {ascii(etext)}; {why}')
+    finally:
+        it.set_global(tm, 'escape_parsable', orig)
+    for cname, (n, fail) in per_class.items():
+        line = classes[cname].lineno if cname in classes else 0
+        ctx.check(fail is None, 'R9', f'{F_TYPES}::{cname}._parsable_string::IRParser.type_expr reads the same structure and names as the Python grammar reads str()',
+                  fail or '', mt.path, line, detail={'samples': n})
+    # arms: constructor arguments in reading order
+    for kw in sorted(set(kwrev)):
+        steps, result = eng.arm(kw)
+        vals = [st[1] for st in steps if st[0] in ('type', 'ident', 'int', 'repsep')]
+        m = re.search(r'(T\w+)\(([^()]*(?:\([^()]*\))?[^()]*)\)\s*$', result)
+        if len(vals) < 2 or not m:
+            continue
+        used = [v for v in re.findall(r'\b\w+\b', m.group(2)) if v in vals]
+        order_ok = used == [v for v in vals if v in used]
+        ctx.check(order_ok, 'R9', f'{F_PARSER}::IRParser.type_expr case "{kw}"::constructor arguments in reading order',
+                  f'the arm reads {vals} in this order but builds {m.group(0)[:60]}: the members of {kwrev[kw]} are swapped on the engine side', eng.src.rel if hasattr(eng.src, "rel") else F_PARSER, 0)
+    ctx.unit('engine_samples_skipped_for_known_escape_findings', skipped_known)
+
+
 def run(ctx: Ctx) -> None:
     ctx.explanation = ('Escapers are turned into unit tables (code-point range -> emitted text) and compared, as regular languages over all '
                        'Unicode code points, with the Python grammar terminals and with the engine lexer read from Parser.scala; printed '
-                       'forms are parsed with our own PEG interpreter of the grammar text. No repository code is run.')
+                       'forms are parsed with our own PEG interpreter of the grammar text; hl.dtype is analysed by abstract data flow (what it returns '
+                       'is the parse of its own argument); printers, dtype and the visitor are evaluated on sample types with our own evaluator; '
+                       'the engine reading of the engine-facing forms is modelled from the extracted IRLexer / IRParser fragments. No repository code is run.')
     ctx.rule('R1', 'names emitted bare are simple_identifier of the type grammar and JavaTokenParsers.ident of the engine lexer '
                    ' (ASCII names and all names)', 5)
     ctx.rule('R2', 'every escape unit the Python side can emit between delimiters is accepted by the engine lexer quotedLiteral / by the '
@@ -908,11 +2708,123 @@ def run(ctx: Ctx) -> None:
                    'alternative of `type` has a visitor', 52)
     ctx.rule('R5', 'unescapeString maps every accepted escape unit back to the same UTF-16 code units', 35)
     ctx.rule('R6', 'the keyword of every _parsable_string form has an arm in IRParser.type_expr that consumes the punctuation printed', 18)
+    ctx.rule('R7', 'what hl.dtype returns is the parse of ITS OWN argument: every return is visit(parse(arg)) or a memo entry whose key is an injective '
+                   '(parse-preserving) function of the argument and that is only written with the value parsed from the same text; the visitor keeps no '
+                   'state; printers do not remember text computed from attributes that change after construction', 22)
+    ctx.rule('R8', 'for every sample type t of every HailType class and every printer (str, pretty): hl.dtype(<printed t>) == t, evaluated with our '
+                   'interpreter in two modelled processes (sample order and reverse order)', 38)
+    ctx.rule('R9', 'IRParser.type_expr (modelled) reads t._parsable_string() of every sample in full, with the same structure, names and dimensions as '
+                   'the Python grammar reads str(t); constructor arguments of the arms are in reading order', 18)
+    deferred: List[str] = []
+    st: Dict[str, Any] = {}
+
+    def section(fn) -> None:
+        try:
+            fn()
+        except AnalysisError as e:
+            deferred.append(str(e))
+
+    section(lambda: _run_lexical(ctx, st))
+    section(lambda: _run_semantic(ctx, st))
+    if deferred:
+        raise AnalysisError(' | '.join(deferred))
+
+
+def _grammar(ctx: Ctx, mg: pf.Module) -> P.Grammar:
+    grammar_text = sp.const_string(mg, None, ast.Name(id='type_grammar_str', ctx=ast.Load()))
+    tg = sp.module_const(mg, 'type_grammar')
+    ctx.need(isinstance(tg, ast.Call) and pf.dotted(tg.func) == 'Grammar' and [pf.nsrc(a) for a in tg.args] == ['type_grammar_str'],
+             f'{F_GRAMMAR}: type_grammar is not Grammar(type_grammar_str)')
+    return P.parse_grammar(grammar_text, f'{F_GRAMMAR}::type_grammar_str')
+
+
+def _samples(ctx: Ctx, st: Dict[str, Any], mt: pf.Module, classes: Dict[str, ast.ClassDef]) -> Tuple[Session, Samples]:
+    """The modelled process A and the sample types (built once)."""
+    if 'sm' not in st:
+        if 'sm_error' in st:
+            raise AnalysisError(st['sm_error'])
+        try:
+            ses = Session()
+            st['ses'], st['sm'] = ses, Samples(ctx, ses, mt, classes)
+        except C.PyRaise as e:
+            st['sm_error'] = f'sample types cannot be built with the evaluator: {e}'
+            raise AnalysisError(st['sm_error']) from None
+        except AnalysisError as e:
+            st['sm_error'] = str(e)
+            raise
+    return st['ses'], st['sm']
+
+
+def _run_semantic(ctx: Ctx, st: Dict[str, Any]) -> None:
+    mt, mg = pf.load(F_TYPES), pf.load(F_GRAMMAR)
+    G = st.get('G') or _grammar(ctx, mg)
+    classes = _hail_classes(ctx, mt)
+    deferred: List[str] = []
+
+    def r8() -> None:
+        ses, sm = _samples(ctx, st, mt, classes)
+        check_round_trip(ctx, mt, classes, ses, sm)
+
+    def r7() -> None:
+        ses, sm = _samples(ctx, st, mt, classes)
+        battery = []
+        for cname, desc, t in sm.all():
+            for pname, src, how in PRINTERS:
+                try:
+                    text = ses.expr(src, t=t)
+                except C.PyRaise:
+                    continue
+                if isinstance(text, str):
+                    battery.append((text, t, desc))
+        check_parse_flow(ctx, mt, G, battery, ses)
+
+    def r7p() -> None:
+        check_printer_memo(ctx, mt, classes)
+
+    def r9() -> None:
+        ses, sm = _samples(ctx, st, mt, classes)
+        lex, ident, tokens, arms = S.irlexer_quoted_literal(), S.irlexer_identifier(), S.irlexer_token_order(), S.unescape_string_arms()
+        L_java, _origin = java_ident_language(ctx)
+        eng = EngineModel(ctx, lex, ident, tokens, arms, L_java, S.irparser_type_cases())
+        if 'units_p' in st and 'acc_p' in st:
+            flat = split_by_width(st['units_p'])
+            acc = st['acc_p']
+
+            def name_ok(n: str) -> bool:
+                for ch in n:
+                    u = next((u for u in flat if u.lo <= ord(ch) <= u.hi), None)
+                    if u is None or not acc.get(u.kind(), False):
+                        return False
+                return True
+        else:
+            def name_ok(n: str) -> bool:
+                return all(0x20 <= ord(ch) < 0x7f for ch in n)
+        check_engine_reading(ctx, mt, classes, G, ses, sm, eng, name_ok)
+
+    for f in (r7p, r8, r7, r9):
+        try:
+            f()
+        except C.PyRaise as e:
+            deferred.append(f'the evaluator met an unexpected exception of the interpreted code: {e}')
+        except P.ParseFailure as e:
+            deferred.append(f'unexpected parse failure outside a round-trip check: {e}')
+        except RecursionError:
+            deferred.append('evaluator recursion limit')
+        except AnalysisError as e:
+            deferred.append(str(e))
+    if deferred:
+        raise AnalysisError(' | '.join(deferred))
+
+
+def _run_lexical(ctx: Ctx, state: Dict[str, Any]) -> None:
     ctx.assume('regex terminals of type_grammar follow stdlib `re` semantics (parsimonious >= 0.10 uses the third-party `regex` module, whose \\w '
                'differs for a few code points such as U+00B2; not installed here)')
     ctx.assume('JavaTokenParsers.ident = rep1(acceptIf(Character.isJavaIdentifierStart), elem(Character.isJavaIdentifierPart)) on UTF-16 chars '
                '(scala-parser-combinators), and is tried after skipping \\s+')
     ctx.assume('str.encode(\'unicode_escape\') encodes character by character (the table is cut out of the encoding of the string of all code points)')
+    ctx.assume('reference genomes are identified by their registered name: str(rg) == rg.name, get_reference(name).name == name (hail.genetics.reference_genome)')
+    ctx.assume('parsimonious builds one node per matched expression (sequence: a child per member; ordered choice: the matched alternative; optional / '
+               'repetition: the matches) and NodeVisitor.visit calls visit_<rule name> (else generic_visit) bottom-up')
     mj, mm, mt, mg = pf.load(F_JAVA), pf.load(F_MISC), pf.load(F_TYPES), pf.load(F_GRAMMAR)
     ctx.unit('files', 6)
 
@@ -945,11 +2857,8 @@ def run(ctx: Ctx) -> None:
                 and isinstance(n.values[1], ast.FormattedValue) and pf.nsrc(n.values[1].value) == 'escape_str(s)' for n in ast.walk(ps))
     ctx.need(ps_ok, f'{F_MISC}::parsable_strings: elements are not rendered as "{{escape_str(s)}}"')
 
-    grammar_text = sp.const_string(mg, None, ast.Name(id='type_grammar_str', ctx=ast.Load()))
-    tg = sp.module_const(mg, 'type_grammar')
-    ctx.need(isinstance(tg, ast.Call) and pf.dotted(tg.func) == 'Grammar' and [pf.nsrc(a) for a in tg.args] == ['type_grammar_str'],
-             f'{F_GRAMMAR}: type_grammar is not Grammar(type_grammar_str)')
-    G = P.parse_grammar(grammar_text, f'{F_GRAMMAR}::type_grammar_str')
+    G = _grammar(ctx, mg)
+    state['G'] = G
     ctx.unit('grammar_rules', len(G.order))
 
     lex = S.irlexer_quoted_literal()
@@ -967,19 +2876,19 @@ def run(ctx: Ctx) -> None:
     ctx.need('identifier' in tokens, f'{F_PARSER}::IRLexer.token: no identifier alternative ({tokens})')
     w = R.included(esc.bare, L_simple)
     ctx.check(w is None, 'R1', f'{F_JAVA}::escape_parsable::bare names are simple_identifier',
-              f'escape_parsable emits {_show(w)} without back-ticks (it matches {esc.rd.pattern!r} under {esc.mode}), but the type grammar\'s '
+              f'escape_parsable emits {_show(w)} without back-ticks ({esc.why}), but the type grammar\'s '
               f'simple_identifier {pat_simple!r} does not match it in full: the printed type does not parse back', mj.path, esc.test_line)
     ascii_only = R.lang(R.star(R.chars(R.pred('str.isascii'))), 'ASCII*')
     for e_, file_, m_ in ((esc, F_JAVA, mj), (eid, F_MISC, mm)):
         # (a) over ASCII names (the engine and Python agree on ASCII letters/digits: any difference here is a plain grammar mismatch)
         w = R.included(e_.bare & ascii_only, L_java)
         ctx.check(w is None, 'R1', f'{file_}::{e_.name}::bare ASCII names are JavaTokenParsers.ident',
-                  f'{e_.name} emits the name {_show(w)} without back-ticks (it matches {e_.rd.pattern!r} under {e_.mode}), but that is not a Java identifier: '
+                  f'{e_.name} emits the name {_show(w)} without back-ticks ({e_.why}), but that is not a Java identifier: '
                   f'IRLexer.ident does not read it as one identifier token', m_.path, e_.test_line)
         # (b) over all names
         w = R.included(e_.bare, L_java)
         ctx.check(w is None, 'R1', f'{file_}::{e_.name}::bare names are JavaTokenParsers.ident',
-                  f'{e_.name} emits the name {_show(w)} without back-ticks (it matches {e_.rd.pattern!r} under {e_.mode}; Python\'s \\w accepts every '
+                  f'{e_.name} emits the name {_show(w)} without back-ticks ({e_.why}; Python\'s \\w accepts every '
                   f'str.isalnum() character), but U+{ord(w[-1]) if w else 0:04X} is not a Java identifier part ({java_origin}), so IRLexer.ident stops '
                   f'before it and the engine does not read the same name', m_.path, e_.test_line, detail={'java_tables': java_origin})
 
@@ -988,6 +2897,7 @@ def run(ctx: Ctx) -> None:
     ctx.need(delim == ident.get('backtick_delim') and delim_id == delim, f'delimiters differ: python {delim!r}/{delim_id!r}, engine {ident.get("backtick_delim")!r}')
     acc_p = check_units_against(ctx, 'R2', f'{F_JAVA}::escape_parsable -> IRLexer.backtickLiteral', units_p, delim, L_backtick,
                                 f'IRLexer.quotedLiteral (escapeChars {lex["literal"]}, Parser.scala:{lex["line"]})', esc.bare, mj.path, esc.test_line, 'escape_parsable')
+    state['units_p'], state['acc_p'] = units_p, acc_p
     pat_esc, L_esc = G.regex_language('escaped_identifier')
     pfree = R.prefix_free(L_esc)
     ctx.check(pfree is None, 'R2', f'{F_GRAMMAR}::escaped_identifier::prefix-free',
@@ -1183,7 +3093,14 @@ def run(ctx: Ctx) -> None:
             if cname in ('tvariable',):
                 ctx.info(f'{cname}.__str__ is not a single template; not covered ({e})')
                 continue
-            raise
+            # not a single template: print sample instances with the evaluator instead
+            ses_, sm_ = _samples(ctx, state, mt, classes)
+            if cname not in sm_.by_class:
+                raise
+            try:
+                samples = [ses_.expr('str(t)', t=t_) for _d, t_ in sm_.by_class[cname]]
+            except C.PyRaise as r_:
+                raise AnalysisError(f'{F_TYPES}::{cname}.__str__ raises {r_} on a sample') from None
         wrong = None
         for text in samples:
             n_samples += 1
@@ -1194,9 +3111,18 @@ def run(ctx: Ctx) -> None:
                 break
             chosen = node.first_rule_below()
             rname = chosen.label if chosen is not None else None
-            if rule_class.get(rname or '') != cname:
+            built = rule_class.get(rname or '')
+            if built is None:
+                # the visitor's returns are not all `types.X(...)`: let the evaluator say what it builds for this text
+                ses_, _sm = _samples(ctx, state, mt, classes)
+                obj, err = true_parse(ses_, text)
+                if err is not None:
+                    wrong = f'the printed form {ascii(text)} is read by the alternative `{rname}`, whose visitor raises {err}'
+                    break
+                built = obj.cls.name if isinstance(obj, C.Inst) else type(obj).__name__
+            if built != cname:
                 wrong = (f'the printed form {ascii(text)} is parsed by the alternative `{rname}`, whose visitor builds '
-                         f'{rule_class.get(rname or "")}, not {cname} (ordered choice commits to the first alternative that matches)')
+                         f'{built}, not {cname} (ordered choice commits to the first alternative that matches)')
                 break
         ctx.check(wrong is None, 'R4', cons, wrong or '', mt.path, meth.lineno, detail={'samples': len(samples)})
     ctx.unit('printed_forms_parsed', n_samples)
@@ -1234,9 +3160,18 @@ def run(ctx: Ctx) -> None:
         body = [s for s in meth.body if not (isinstance(s, ast.Expr) and isinstance(s.value, ast.Constant))]
         if len(body) == 1 and isinstance(body[0], ast.Raise):
             continue
-        samples = T2.samples(meth)
         cons = f'{F_TYPES}::{cname}._parsable_string::engine syntax'
+        try:
+            samples = T2.samples(meth)
+        except AnalysisError:
+            ses_, sm_ = _samples(ctx, state, mt, classes)
+            if cname not in sm_.by_class:
+                raise
+            ctx.ok('R6', cons, 'not a single template: the engine reading of its evaluated samples is decided under R9', nontrivial=False)
+            continue
         text = max(samples, key=len)
+        if text.startswith('+') and 'case x: PunctuationToken if x.value == "+" => punctuation(it, "+")' in psrc.norm(*psrc.find_def('type_expr', pspan, signature_contains='it: TokenIterator')[1:3]):
+            text = text[1:]  # type_expr skips a leading requiredness marker
         km = re.match(r'[A-Za-z_][A-Za-z_0-9]*', text)
         ctx.need(km is not None, f'{cname}._parsable_string: sample {text!r} does not start with a keyword')
         kw = km.group()  # type: ignore[union-attr]
